@@ -20,7 +20,11 @@
 #endif
 #include "vf_mt.h"
 
+#if VF_MT == 7
+static void mt_setup(void);
+#else
 static void mt_setup(void) {}
+#endif
 
 /* ============================================================================================ C01 C02 C03: trees */
 #if VF_MT <= 3
@@ -175,6 +179,1968 @@ static mt_item const ITEMS[] = {{"avl-iterators-and-tear-down", it_avl_iter}, {"
 #endif /* trees */
 
 /* MT-SECTIONS-BELOW */
+
+/* ============================================================================================ C07: the failing allocator */
+/* The container items of C04, C05 and C06 are also the items of C07: there they run with ONE shim installed behind the global
+ * a_alloc pointer (once, on the main thread, before any worker exists) that refuses requests of the CURRENT thread according to
+ * thread-local counters the item arms from its random stream: the mt_oom_left-th request from now fails, then every
+ * mt_oom_period-th one (0: no further failure).  A refused resize leaves the old block alive, size 0 releases. */
+#if VF_MT >= 4 && VF_MT <= 7
+/* destructor / copy callbacks have no context argument: what they see goes to a thread-local accumulator the item folds in */
+static __thread uint64_t mt_cb_acc __attribute__((unused));
+/* where a returned element pointer lies, relative to the storage it belongs to */
+#define MT_OFF(base, p) ((p) ? (uint64_t)((unsigned char const *)(p) - (unsigned char const *)(base)) : 0xFFFFFFFFFFull)
+#endif
+#if VF_MT == 7
+static __thread long mt_oom_left = -1, mt_oom_period;
+static __thread uint64_t mt_oom_asked, mt_oom_refused;
+static void *mt_oom_alloc(void *addr, a_size size)
+{
+    if (size)
+    {
+        ++mt_oom_asked;
+        if (mt_oom_left >= 0 && mt_oom_left-- == 0)
+        {
+            mt_oom_left = mt_oom_period ? mt_oom_period - 1 : -1;
+            ++mt_oom_refused;
+            return NULL;
+        }
+        return realloc(addr, size);
+    }
+    free(addr);
+    return NULL;
+}
+static void mt_setup(void) { a_alloc = mt_oom_alloc; }
+#define MT_OOM_BEGIN(r)                                                     \
+    do {                                                                    \
+        mt_oom_asked = mt_oom_refused = 0;                                  \
+        mt_oom_period = vf_chance(r, 1, 3) ? 0 : 1 + (long)vf_below(r, 9);  \
+        mt_oom_left = (long)vf_below(r, 14);                                \
+    } while (0)
+#define MT_OOM_END(h)                                                       \
+    do {                                                                    \
+        mt_oom_left = -1;                                                   \
+        h = mt_fold_u64(h, mt_oom_asked);                                   \
+        h = mt_fold_u64(h, mt_oom_refused);                                 \
+    } while (0)
+#else
+#define MT_OOM_BEGIN(r) ((void)0)
+#define MT_OOM_END(h) ((void)0)
+#endif
+
+/* ============================================================================================ C04: vector, fixed buffer */
+#if VF_MT == 4 || VF_MT == 7
+#include "a/vec.h"
+#include "a/buf.h"
+#define MT_SEQ_ELEM(SIZ)                                                                                             \
+    typedef struct { unsigned char b[SIZ]; } mt_e##SIZ;                                                              \
+    static int mt_cmp##SIZ(void const *l, void const *r) { return memcmp(l, r, SIZ); }                               \
+    static void mt_dtor##SIZ(void *p) { mt_cb_acc = mt_fold_bytes(mt_cb_acc ^ 0xD7, p, SIZ); }                       \
+    static int mt_copy##SIZ(void *d, void const *s)                                                                  \
+    {                                                                                                                \
+        memcpy(d, s, SIZ);                                                                                           \
+        mt_cb_acc = mt_fold_bytes(mt_cb_acc ^ 0xC9, s, SIZ);                                                         \
+        return (int)(((unsigned char const *)s)[0] & 1);                                                             \
+    }                                                                                                                \
+    static void mt_draw##SIZ(vf_rng *r, void *p)                                                                     \
+    {                                                                                                                \
+        unsigned const k = (unsigned)vf_below(r, 48);                                                                \
+        for (unsigned i = 0; i < SIZ; ++i) { ((unsigned char *)p)[i] = (unsigned char)(k * (i + 1) + 3 * i); }       \
+    }
+MT_SEQ_ELEM(1)
+MT_SEQ_ELEM(4)
+MT_SEQ_ELEM(7)
+MT_SEQ_ELEM(16)
+
+#define MT_VEC_ITEM(SIZ)                                                                                             \
+    static uint64_t mt_vec_state##SIZ(uint64_t h, a_vec const *v)                                                    \
+    {                                                                                                                \
+        h = mt_fold_u64(h, a_vec_num(v)); h = mt_fold_u64(h, a_vec_mem(v)); h = mt_fold_u64(h, a_vec_siz(v));        \
+        if (a_vec_siz(v) == SIZ) { h = mt_fold_bytes(h, a_vec_ptr(v), a_vec_num(v) * SIZ); }                         \
+        return h;                                                                                                    \
+    }                                                                                                                \
+    static uint64_t it_vec##SIZ(vf_rng *r)                                                                           \
+    {                                                                                                                \
+        int const heap = vf_chance(r, 1, 2);                                                                         \
+        a_vec sv, other, *v = &sv;                                                                                   \
+        unsigned const nops = 60 + (unsigned)vf_below(r, 100);                                                       \
+        uint64_t h = 0xC04 + SIZ;                                                                                    \
+        mt_cb_acc = 0;                                                                                               \
+        MT_OOM_BEGIN(r);                                                                                             \
+        if (!heap) { a_vec_ctor(v, SIZ); }                                                                           \
+        else if ((v = a_vec_new(SIZ)) == NULL) { MT_OOM_END(h); return h; }                                          \
+        a_vec_ctor(&other, SIZ);                                                                                     \
+        for (unsigned op = 0; op < nops; ++op)                                                                       \
+        {                                                                                                            \
+            unsigned what = (unsigned)vf_below(r, 26);                                                               \
+            a_size const n = a_vec_num(v);                                                                           \
+            unsigned char key[SIZ], *p;                                                                              \
+            if (n > 40 && what < 8) { what = 8 + what % 4; }                                                         \
+            h = mt_fold_u64(h, what);                                                                                \
+            switch (what)                                                                                            \
+            {                                                                                                        \
+            case 0: case 1: if ((p = (unsigned char *)a_vec_push_back(v)) != NULL) { mt_draw##SIZ(r, p); } h = mt_fold_u64(h, MT_OFF(a_vec_ptr(v), p)); break; \
+            case 2: if ((p = (unsigned char *)a_vec_push_fore(v)) != NULL) { mt_draw##SIZ(r, p); } h = mt_fold_u64(h, MT_OFF(a_vec_ptr(v), p)); break; \
+            case 3: if ((p = (unsigned char *)a_vec_push(v)) != NULL) { mt_draw##SIZ(r, p); } h = mt_fold_u64(h, MT_OFF(a_vec_ptr(v), p)); break; \
+            case 4: case 5:                                                                                          \
+                if ((p = (unsigned char *)a_vec_insert(v, (a_size)vf_below(r, n + 3))) != NULL) { mt_draw##SIZ(r, p); } \
+                h = mt_fold_u64(h, MT_OFF(a_vec_ptr(v), p)); break;                                                  \
+            case 6:                                                                                                  \
+            {                                                                                                        \
+                unsigned char arr[5 * SIZ];                                                                          \
+                unsigned const k = (unsigned)vf_below(r, 6);                                                         \
+                for (unsigned i = 0; i < k; ++i) { mt_draw##SIZ(r, arr + i * SIZ); }                                 \
+                h = mt_fold_u64(h, (uint64_t)(unsigned)a_vec_store(v, (a_size)vf_below(r, n + 3), arr, k, vf_chance(r, 1, 2) ? mt_copy##SIZ : NULL)); \
+                break;                                                                                               \
+            }                                                                                                        \
+            case 7:                                                                                                  \
+            {                                                                                                        \
+                a_size const to = (a_size)vf_below(r, n + 7);                                                        \
+                h = mt_fold_u64(h, (uint64_t)(unsigned)a_vec_setn(v, to, vf_chance(r, 1, 2) ? mt_dtor##SIZ : NULL)); \
+                for (a_size i = n; i < a_vec_num(v); ++i) { mt_draw##SIZ(r, a_vec_at_(v, i)); }                      \
+                break;                                                                                               \
+            }                                                                                                        \
+            case 8: p = (unsigned char *)a_vec_pull_back(v); h = mt_fold_u64(h, MT_OFF(a_vec_ptr(v), p)); if (p) { h = mt_fold_bytes(h, p, SIZ); } break; \
+            case 9: p = (unsigned char *)a_vec_pull_fore(v); h = mt_fold_u64(h, MT_OFF(a_vec_ptr(v), p)); if (p) { h = mt_fold_bytes(h, p, SIZ); } break; \
+            case 10: p = (unsigned char *)a_vec_pull(v); h = mt_fold_u64(h, MT_OFF(a_vec_ptr(v), p)); if (p) { h = mt_fold_bytes(h, p, SIZ); } break; \
+            case 11:                                                                                                 \
+                p = (unsigned char *)a_vec_remove(v, (a_size)vf_below(r, n + 3));                                    \
+                h = mt_fold_u64(h, MT_OFF(a_vec_ptr(v), p)); if (p) { h = mt_fold_bytes(h, p, SIZ); } break;         \
+            case 12:                                                                                                 \
+            {                                                                                                        \
+                a_size const idx = (a_size)vf_below(r, n + 3), k = (a_size)vf_below(r, 6);                           \
+                h = mt_fold_u64(h, (uint64_t)(unsigned)a_vec_erase(v, idx, vf_chance(r, 1, 8) ? A_SIZE_MAX - (a_size)vf_below(r, 3) : k, vf_chance(r, 1, 2) ? mt_dtor##SIZ : NULL)); \
+                break;                                                                                               \
+            }                                                                                                        \
+            case 13: h = mt_fold_u64(h, (uint64_t)(unsigned)a_vec_setm(v, (a_size)vf_below(r, a_vec_mem(v) + 12))); break; \
+            case 14:                                                                                                 \
+                a_vec_setz(v, 1 + (a_size)vf_below(r, 24), vf_chance(r, 1, 2) ? mt_dtor##SIZ : NULL);                \
+                h = mt_vec_state##SIZ(h, v);                                                                         \
+                a_vec_setz(v, vf_chance(r, 1, 6) ? 0 : SIZ, NULL);                                                   \
+                if (a_vec_siz(v) != SIZ) { h = mt_vec_state##SIZ(h, v); a_vec_setz(v, SIZ, NULL); }                  \
+                break;                                                                                               \
+            case 15: a_vec_sort(v, mt_cmp##SIZ); break;                                                              \
+            case 16: case 17:                                                                                        \
+                a_vec_sort(v, mt_cmp##SIZ);                                                                          \
+                if (vf_chance(r, 1, 2)) { (void)a_vec_setm(v, n + 1 + (a_size)vf_below(r, 3)); }                     \
+                if ((p = (unsigned char *)a_vec_push_fore(v)) != NULL) { mt_draw##SIZ(r, p); a_vec_sort_fore(v, mt_cmp##SIZ); } \
+                break;                                                                                               \
+            case 18: case 19:                                                                                        \
+                a_vec_sort(v, mt_cmp##SIZ);                                                                          \
+                if (vf_chance(r, 1, 2)) { (void)a_vec_setm(v, n + 1 + (a_size)vf_below(r, 3)); }                     \
+                if ((p = (unsigned char *)a_vec_push_back(v)) != NULL) { mt_draw##SIZ(r, p); a_vec_sort_back(v, mt_cmp##SIZ); } \
+                break;                                                                                               \
+            case 20: case 21:                                                                                        \
+                a_vec_sort(v, mt_cmp##SIZ);                                                                          \
+                mt_draw##SIZ(r, key);                                                                                \
+                if ((p = (unsigned char *)a_vec_push_sort(v, key, mt_cmp##SIZ)) != NULL) { memcpy(p, key, SIZ); }    \
+                h = mt_fold_u64(h, MT_OFF(a_vec_ptr(v), p)); break;                                                  \
+            case 22:                                                                                                 \
+                a_vec_sort(v, mt_cmp##SIZ);                                                                          \
+                mt_draw##SIZ(r, key);                                                                                \
+                p = (unsigned char *)a_vec_search(v, key, mt_cmp##SIZ);                                              \
+                h = mt_fold_u64(h, p ? 1 : 0); if (p) { h = mt_fold_bytes(h, p, SIZ); }                              \
+                break;                                                                                               \
+            case 23: a_vec_swap(v, &other); break;                                                                   \
+            case 24:                                                                                                 \
+            {                                                                                                        \
+                a_size const idx = (a_size)vf_below(r, a_vec_mem(v) + 3);                                            \
+                a_diff const of = (a_diff)vf_range(r, -(int64_t)a_vec_mem(v) - 2, (int64_t)a_vec_mem(v) + 2);        \
+                h = mt_fold_u64(h, MT_OFF(a_vec_ptr(v), a_vec_at(v, idx)));                                          \
+                h = mt_fold_u64(h, MT_OFF(a_vec_ptr(v), a_vec_of(v, of)));                                           \
+                h = mt_fold_u64(h, MT_OFF(a_vec_ptr(v), a_vec_top(v)));                                              \
+                h = mt_fold_u64(h, MT_OFF(a_vec_ptr(v), a_vec_end(v)));                                              \
+                if (n) { h = mt_fold_u64(h, MT_OFF(a_vec_ptr(v), a_vec_top_(v))); h = mt_fold_u64(h, MT_OFF(a_vec_ptr(v), a_vec_end_(v))); } \
+                break;                                                                                               \
+            }                                                                                                        \
+            default:                                                                                                 \
+            {                                                                                                        \
+                a_vec_forenum(i, v) { h = mt_fold_bytes(h, a_vec_at(v, i), SIZ); }                                   \
+                a_vec_forenum_reverse(i, v) { h = mt_fold_bytes(h, a_vec_at_(v, i), SIZ); }                          \
+                a_vec_foreach(mt_e##SIZ, *, it, v) { h = mt_fold_bytes(h, it->b, SIZ); }                             \
+                a_vec_foreach_reverse(mt_e##SIZ, *, it, v) { h = mt_fold_bytes(h, it->b, SIZ); }                     \
+                break;                                                                                               \
+            }                                                                                                        \
+            }                                                                                                        \
+            h = mt_vec_state##SIZ(h, v);                                                                             \
+        }                                                                                                            \
+        h = mt_vec_state##SIZ(h, &other);                                                                            \
+        a_vec_dtor(&other, vf_chance(r, 1, 2) ? mt_dtor##SIZ : NULL);                                                \
+        if (heap) { a_vec_die(v, mt_dtor##SIZ); }                                                                    \
+        else { a_vec_dtor(v, mt_dtor##SIZ); h = mt_fold_u64(h, a_vec_num(v) + a_vec_mem(v) + a_vec_siz(v)); }       \
+        MT_OOM_END(h);                                                                                               \
+        return mt_fold_u64(h, mt_cb_acc);                                                                            \
+    }
+MT_VEC_ITEM(1)
+MT_VEC_ITEM(4)
+MT_VEC_ITEM(7)
+MT_VEC_ITEM(16)
+
+#define MT_BUF_ITEM(SIZ)                                                                                             \
+    static uint64_t mt_buf_state##SIZ(uint64_t h, void const *b)                                                     \
+    {                                                                                                                \
+        h = mt_fold_u64(h, a_buf_num(b)); h = mt_fold_u64(h, a_buf_mem(b)); h = mt_fold_u64(h, a_buf_siz(b));        \
+        if (a_buf_siz(b) == SIZ) { h = mt_fold_bytes(h, a_buf_ptr(b), a_buf_num(b) * SIZ); }                         \
+        return h;                                                                                                    \
+    }                                                                                                                \
+    static uint64_t it_buf##SIZ(vf_rng *r)                                                                           \
+    {                                                                                                                \
+        int const heap = vf_chance(r, 1, 2);                                                                         \
+        a_size const cap = (a_size)vf_below(r, 40);                                                                  \
+        a_buf *b;                                                                                                    \
+        unsigned const nops = 60 + (unsigned)vf_below(r, 100);                                                       \
+        uint64_t h = 0xB04 + SIZ;                                                                                    \
+        mt_cb_acc = 0;                                                                                               \
+        MT_OOM_BEGIN(r);                                                                                             \
+        if (!heap) { b = (a_buf *)malloc(sizeof(a_buf) + SIZ * cap); a_buf_ctor(b, SIZ, cap); }                      \
+        else if ((b = a_buf_new(SIZ, cap)) == NULL) { MT_OOM_END(h); return h; }                                     \
+        for (unsigned op = 0; op < nops; ++op)                                                                       \
+        {                                                                                                            \
+            unsigned const what = (unsigned)vf_below(r, 26);                                                         \
+            a_size const n = a_buf_num(b);                                                                           \
+            unsigned char key[SIZ], *p;                                                                              \
+            h = mt_fold_u64(h, what);                                                                                \
+            switch (what)                                                                                            \
+            {                                                                                                        \
+            case 0: case 1: if ((p = (unsigned char *)a_buf_push_back(b)) != NULL) { mt_draw##SIZ(r, p); } h = mt_fold_u64(h, MT_OFF(b, p)); break; \
+            case 2: if ((p = (unsigned char *)a_buf_push_fore(b)) != NULL) { mt_draw##SIZ(r, p); } h = mt_fold_u64(h, MT_OFF(b, p)); break; \
+            case 3: if ((p = (unsigned char *)a_buf_push(b)) != NULL) { mt_draw##SIZ(r, p); } h = mt_fold_u64(h, MT_OFF(b, p)); break; \
+            case 4: case 5:                                                                                          \
+                if ((p = (unsigned char *)a_buf_insert(b, (a_size)vf_below(r, n + 3))) != NULL) { mt_draw##SIZ(r, p); } \
+                h = mt_fold_u64(h, MT_OFF(b, p)); break;                                                             \
+            case 6:                                                                                                  \
+            {                                                                                                        \
+                unsigned char arr[5 * SIZ];                                                                          \
+                unsigned const k = (unsigned)vf_below(r, 6);                                                         \
+                for (unsigned i = 0; i < k; ++i) { mt_draw##SIZ(r, arr + i * SIZ); }                                 \
+                h = mt_fold_u64(h, (uint64_t)(unsigned)a_buf_store(b, (a_size)vf_below(r, n + 3), arr, k, vf_chance(r, 1, 2) ? mt_copy##SIZ : NULL)); \
+                break;                                                                                               \
+            }                                                                                                        \
+            case 7:                                                                                                  \
+                a_buf_setn(b, (a_size)vf_below(r, n + 7), vf_chance(r, 1, 2) ? mt_dtor##SIZ : NULL);                 \
+                for (a_size i = n; i < a_buf_num(b); ++i) { mt_draw##SIZ(r, a_buf_at_(b, i)); }                      \
+                break;                                                                                               \
+            case 8: p = (unsigned char *)a_buf_pull_back(b); h = mt_fold_u64(h, MT_OFF(b, p)); if (p) { h = mt_fold_bytes(h, p, SIZ); } break; \
+            case 9: p = (unsigned char *)a_buf_pull_fore(b); h = mt_fold_u64(h, MT_OFF(b, p)); if (p) { h = mt_fold_bytes(h, p, SIZ); } break; \
+            case 10: p = (unsigned char *)a_buf_pull(b); h = mt_fold_u64(h, MT_OFF(b, p)); if (p) { h = mt_fold_bytes(h, p, SIZ); } break; \
+            case 11:                                                                                                 \
+                p = (unsigned char *)a_buf_remove(b, (a_size)vf_below(r, n + 3));                                    \
+                h = mt_fold_u64(h, MT_OFF(b, p)); if (p) { h = mt_fold_bytes(h, p, SIZ); } break;                    \
+            case 12:                                                                                                 \
+            {                                                                                                        \
+                a_size const idx = (a_size)vf_below(r, n + 3) % (a_buf_mem(b) + 1), k = (a_size)vf_below(r, 6);      \
+                h = mt_fold_u64(h, (uint64_t)(unsigned)a_buf_erase(b, idx, vf_chance(r, 1, 8) ? A_SIZE_MAX - (a_size)vf_below(r, 3) : k, vf_chance(r, 1, 2) ? mt_dtor##SIZ : NULL)); \
+                break;                                                                                               \
+            }                                                                                                        \
+            case 13:                                                                                                 \
+            {                                                                                                        \
+                /* never below the count in use */                                                                   \
+                a_buf *const nb = a_buf_setm(b, n + (a_size)vf_below(r, 24));                                        \
+                h = mt_fold_u64(h, nb ? 1 : 0);                                                                      \
+                if (nb) { b = nb; }                                                                                  \
+                break;                                                                                               \
+            }                                                                                                        \
+            case 14:                                                                                                 \
+            {                                                                                                        \
+                a_size const bytes = a_buf_mem(b) * a_buf_siz(b);                                                    \
+                a_buf_setz(b, (a_size)vf_below(r, 24), vf_chance(r, 1, 2) ? mt_dtor##SIZ : NULL);                    \
+                h = mt_buf_state##SIZ(h, b);                                                                         \
+                /* back to the element size of this item with the capacity the block really has */                  \
+                a_buf_ctor(b, SIZ, bytes / SIZ);                                                                     \
+                break;                                                                                               \
+            }                                                                                                        \
+            case 15: a_buf_sort(b, mt_cmp##SIZ); break;                                                              \
+            case 16: case 17:                                                                                        \
+                a_buf_sort(b, mt_cmp##SIZ);                                                                          \
+                if ((p = (unsigned char *)a_buf_push_fore(b)) != NULL) { mt_draw##SIZ(r, p); a_buf_sort_fore(b, mt_cmp##SIZ); } \
+                break;                                                                                               \
+            case 18: case 19:                                                                                        \
+                a_buf_sort(b, mt_cmp##SIZ);                                                                          \
+                if ((p = (unsigned char *)a_buf_push_back(b)) != NULL) { mt_draw##SIZ(r, p); a_buf_sort_back(b, mt_cmp##SIZ); } \
+                break;                                                                                               \
+            case 20: case 21:                                                                                        \
+                a_buf_sort(b, mt_cmp##SIZ);                                                                          \
+                mt_draw##SIZ(r, key);                                                                                \
+                if ((p = (unsigned char *)a_buf_push_sort(b, key, mt_cmp##SIZ)) != NULL) { memcpy(p, key, SIZ); }    \
+                h = mt_fold_u64(h, MT_OFF(b, p)); break;                                                             \
+            case 22:                                                                                                 \
+                a_buf_sort(b, mt_cmp##SIZ);                                                                          \
+                mt_draw##SIZ(r, key);                                                                                \
+                p = (unsigned char *)a_buf_search(b, key, mt_cmp##SIZ);                                              \
+                h = mt_fold_u64(h, p ? 1 : 0); if (p) { h = mt_fold_bytes(h, p, SIZ); }                              \
+                break;                                                                                               \
+            case 23: case 24:                                                                                        \
+            {                                                                                                        \
+                a_size const idx = (a_size)vf_below(r, a_buf_mem(b) + 3);                                            \
+                a_diff const of = (a_diff)vf_range(r, -(int64_t)a_buf_mem(b) - 2, (int64_t)a_buf_mem(b) + 2);        \
+                h = mt_fold_u64(h, MT_OFF(b, a_buf_at(b, idx)));                                                     \
+                h = mt_fold_u64(h, MT_OFF(b, a_buf_of(b, of)));                                                      \
+                h = mt_fold_u64(h, MT_OFF(b, a_buf_top(b)));                                                         \
+                h = mt_fold_u64(h, MT_OFF(b, a_buf_end(b)));                                                         \
+                if (n) { h = mt_fold_u64(h, MT_OFF(b, a_buf_top_(b))); }                                             \
+                break;                                                                                               \
+            }                                                                                                        \
+            default:                                                                                                 \
+            {                                                                                                        \
+                a_buf_forenum(i, b) { h = mt_fold_bytes(h, a_buf_at(b, i), SIZ); }                                   \
+                a_buf_forenum_reverse(i, b) { h = mt_fold_bytes(h, a_buf_at_(b, i), SIZ); }                          \
+                a_buf_foreach(mt_e##SIZ, *, it, b) { h = mt_fold_bytes(h, it->b, SIZ); }                             \
+                a_buf_foreach_reverse(mt_e##SIZ, *, it, b) { h = mt_fold_bytes(h, it->b, SIZ); }                     \
+                break;                                                                                               \
+            }                                                                                                        \
+            }                                                                                                        \
+            h = mt_buf_state##SIZ(h, b);                                                                             \
+        }                                                                                                            \
+        if (heap) { a_buf_die(b, mt_dtor##SIZ); }                                                                    \
+        else { a_buf_dtor(b, mt_dtor##SIZ); h = mt_fold_u64(h, a_buf_num(b)); free(b); }                             \
+        MT_OOM_END(h);                                                                                               \
+        return mt_fold_u64(h, mt_cb_acc);                                                                            \
+    }
+MT_BUF_ITEM(1)
+MT_BUF_ITEM(4)
+MT_BUF_ITEM(7)
+MT_BUF_ITEM(16)
+
+/* a_swap / a_copy / a_move / a_fill / a_zero of a/a.h on private byte arrays (a_swap is the rotation step of the full-vector paths) */
+static uint64_t it_bytes(vf_rng *r)
+{
+    unsigned char a[96], b[96];
+    uint64_t h = 0xA04;
+    for (int k = 0; k < 24; ++k)
+    {
+        size_t const n = (size_t)vf_below(r, 49), at = (size_t)vf_below(r, 48), bt = (size_t)vf_below(r, 48);
+        for (size_t i = 0; i < sizeof a; ++i) { a[i] = (unsigned char)vf_u64(r); b[i] = (unsigned char)vf_u64(r); }
+        a_swap(a + at, b + bt, n);
+        h = mt_fold_bytes(h, a, sizeof a); h = mt_fold_bytes(h, b, sizeof b);
+        a_swap(a + at, a + at + 1 + n % 7, n % 40); /* overlapping: one-element rotation, as a_vec_remove uses it */
+        h = mt_fold_bytes(h, a, sizeof a);
+        a_copy(a + bt, b + at, n);
+        a_move(a + at, a + bt, n);
+        h = mt_fold_bytes(h, a, sizeof a);
+        a_fill(b + at, n, (int)vf_below(r, 256));
+        a_zero(b + bt, n / 2);
+        h = mt_fold_bytes(h, b, sizeof b);
+    }
+    return h;
+}
+#endif
+#if VF_MT == 4
+static mt_item const ITEMS[] = {{"vec-history-1", it_vec1}, {"vec-history-4", it_vec4}, {"vec-history-7", it_vec7}, {"vec-history-16", it_vec16},
+                                {"buf-history-1", it_buf1}, {"buf-history-4", it_buf4}, {"buf-history-7", it_buf7}, {"buf-history-16", it_buf16},
+                                {"swap-copy-move-fill", it_bytes}};
+#endif /* C04 */
+
+/* ============================================================================================ C05: lists, queue */
+#if VF_MT == 5 || VF_MT == 7
+#include "a/list.h"
+#include "a/slist.h"
+#include "a/que.h"
+typedef struct { a_list n; unsigned key; int where; } mt_ln; /* where: 0 detached, 1 ring A, 2 ring B */
+static uint64_t mt_ring_fold(uint64_t h, a_list const *head)
+{
+    unsigned cnt = 0;
+    a_list *at;
+    a_list_foreach_next(it, head) { h = mt_fold_u64(h, a_list_entry(it, mt_ln, n)->key); ++cnt; }
+    h = mt_fold_u64(h, 0xF000 + cnt);
+    a_list_foreach_prev(it, head) { h = mt_fold_u64(h, a_list_entry(it, mt_ln, n)->key); }
+    A_LIST_FOREACH_NEXT(at, head) { h = mt_fold_u64(h, a_list_entry_next(at, mt_ln, n) == a_list_entry(at->next, mt_ln, n)); }
+    A_LIST_FOREACH_PREV(at, head) { --cnt; }
+    return mt_fold_u64(h, cnt);
+}
+#define MT_LN 28
+static uint64_t it_list(vf_rng *r)
+{
+    mt_ln pool[MT_LN];
+    a_list ha = A_LIST_INIT(ha), hb;
+    uint64_t h = 0xC05;
+    unsigned const nops = 150 + (unsigned)vf_below(r, 250);
+    a_list_ctor(&hb);
+    for (unsigned i = 0; i < MT_LN; ++i) { pool[i].key = i; pool[i].where = 0; a_list_init(&pool[i].n); }
+    for (unsigned op = 0; op < nops; ++op)
+    {
+        unsigned const i = (unsigned)vf_below(r, MT_LN), j = (unsigned)vf_below(r, MT_LN), what = (unsigned)vf_below(r, 16);
+        mt_ln *const x = &pool[i], *const y = &pool[j];
+        /* a place in ring A: the head or a member */
+        a_list *const anchor = (y->where == 1 && vf_chance(r, 3, 4)) ? &y->n : &ha;
+        h = mt_fold_u64(h, what);
+        if (x->where == 0)
+        {
+            x->key = (unsigned)vf_below(r, 1000);
+            if (what < 4) { a_list_add_next(anchor, &x->n); x->where = 1; }
+            else if (what < 8) { a_list_add_prev(anchor, &x->n); x->where = 1; }
+            else if (what < 10) { a_list_add_node(anchor->next, anchor, &x->n); x->where = 1; }
+            else if (what < 13) { a_list_add_prev(&hb, &x->n); x->where = 2; }
+            else if (i != j && y->where == 0 && i + 1 < MT_LN && i + 1 != j && pool[i + 1].where == 0)
+            {
+                /* a chain of three built by hand, closed to a ring of its own, then spliced in behind the anchor */
+                mt_ln *const z = &pool[i + 1];
+                a_list_link(&x->n, &y->n);
+                a_list_link(&y->n, &z->n);
+                a_list_loop(&x->n, &z->n);
+                h = mt_fold_u64(h, a_list_entry_prev(&x->n, mt_ln, n)->key);
+                a_list_add_(anchor->next, anchor, &x->n, &z->n);
+                x->where = y->where = z->where = 1;
+            }
+        }
+        else if (x->where == 1)
+        {
+            if (what < 3) { a_list_del_node(&x->n); a_list_dtor(&x->n); x->where = 0; }
+            else if (what < 5)
+            {
+                a_list *const v = what == 3 ? x->n.next : x->n.prev;
+                if (v != &ha)
+                {
+                    if (what == 3) { a_list_del_next(&x->n); } else { a_list_del_prev(&x->n); }
+                    a_list_init(v);
+                    a_list_entry(v, mt_ln, n)->where = 0;
+                }
+            }
+            else if (what == 5 && y->where == 0)
+            {
+                a_list_set_node(&x->n, &y->n);
+                a_list_init(&x->n);
+                x->where = 0; y->where = 1;
+            }
+            else if (what < 8 && y->where == 1 && i != j && x->n.next != &y->n && y->n.next != &x->n) { a_list_swap_node(&x->n, &y->n); }
+            else if (what == 8) { a_list_rot_next(&ha); }
+            else if (what == 9) { a_list_rot_prev(&ha); }
+            else if (what < 12 && hb.next != &hb)
+            {
+                a_list_foreach_next(it, &hb) { a_list_entry(it, mt_ln, n)->where = 1; }
+                if (what == 10) { a_list_mov_next(anchor, &hb); } else { a_list_mov_prev(anchor, &hb); }
+                a_list_init(&hb);
+            }
+            else
+            {
+                /* a run of members starting at x */
+                a_list *last = &x->n;
+                unsigned len = 1 + (unsigned)vf_below(r, 4);
+                while (--len && last->next != &ha) { last = last->next; }
+                if (what < 14)
+                {
+                    /* cut out and appended to ring B */
+                    a_list_del_(&x->n, last);
+                    a_list_add_(&hb, hb.prev, &x->n, last);
+                    for (a_list *it = &x->n;; it = it->next) { a_list_entry(it, mt_ln, n)->where = 2; if (it == last) { break; } }
+                }
+                else if (hb.next != &hb)
+                {
+                    a_list *const bh = hb.next, *const bt = hb.prev;
+                    if (what == 14)
+                    {
+                        /* exchanged with the whole content of ring B */
+                        a_list_swap_(&x->n, last, bh, bt);
+                        for (a_list *it = &x->n;; it = it->next) { a_list_entry(it, mt_ln, n)->where = 2; if (it == last) { break; } }
+                        for (a_list *it = bh;; it = it->next) { a_list_entry(it, mt_ln, n)->where = 1; if (it == bt) { break; } }
+                    }
+                    else
+                    {
+                        /* replaced by the whole content of ring B; the run falls out */
+                        a_list *it = &x->n, *nx;
+                        a_list_del_(bh, bt);
+                        a_list_set_(&x->n, last, bh, bt);
+                        for (a_list *q = bh;; q = q->next) { a_list_entry(q, mt_ln, n)->where = 1; if (q == bt) { break; } }
+                        for (;; it = nx) { nx = it->next; a_list_entry(it, mt_ln, n)->where = 0; a_list_init(it); if (it == last) { break; } }
+                    }
+                }
+            }
+        }
+        else if (what < 6) { a_list_del_node(&x->n); a_list_init(&x->n); x->where = 0; }
+        h = mt_ring_fold(h, &ha);
+        h = mt_ring_fold(h, &hb);
+    }
+    {
+        unsigned left = 0;
+        a_list_forsafe_next(it, at, &ha) { a_list_del_node(it); a_list_dtor(it); ++left; }
+        a_list_forsafe_prev(it, at, &hb) { a_list_del_node(it); a_list_dtor(it); ++left; }
+        h = mt_fold_u64(h, left);
+        h = mt_ring_fold(h, &ha);
+    }
+    return h;
+}
+
+typedef struct { a_slist_node n; unsigned key; int where; } mt_sn;
+static uint64_t mt_slist_fold(uint64_t h, a_slist const *l)
+{
+    unsigned cnt = 0;
+    a_slist_node *it;
+    a_slist_foreach(at, l) { h = mt_fold_u64(h, a_slist_entry(at, mt_sn, n)->key); ++cnt; }
+    A_SLIST_FOREACH(it, l) { h = mt_fold_u64(h, it->next ? a_slist_entry_next(it, mt_sn, n)->key : 0xE0E0); }
+    h = mt_fold_u64(h, l->tail == &l->head ? 0xFFFFFFFFull : a_slist_entry(l->tail, mt_sn, n)->key);
+    return mt_fold_u64(h, cnt);
+}
+static uint64_t it_slist(vf_rng *r)
+{
+    mt_sn pool[MT_LN];
+    a_slist la = A_SLIST_INIT(la), lb;
+    uint64_t h = 0x5C05;
+    unsigned const nops = 150 + (unsigned)vf_below(r, 250);
+    a_slist_ctor(&lb);
+    for (unsigned i = 0; i < MT_LN; ++i) { pool[i].key = i; pool[i].where = 0; pool[i].n.next = NULL; }
+    for (unsigned op = 0; op < nops; ++op)
+    {
+        unsigned const i = (unsigned)vf_below(r, MT_LN), j = (unsigned)vf_below(r, MT_LN), what = (unsigned)vf_below(r, 12);
+        mt_sn *const x = &pool[i], *const y = &pool[j];
+        a_slist_node *const anchor = (y->where == 1 && vf_chance(r, 3, 4)) ? &y->n : &la.head;
+        h = mt_fold_u64(h, what);
+        if (x->where == 0)
+        {
+            x->key = (unsigned)vf_below(r, 1000);
+            if (what < 3) { a_slist_add_head(&la, &x->n); x->where = 1; }
+            else if (what < 6) { a_slist_add_tail(&la, &x->n); x->where = 1; }
+            else if (what < 9) { a_slist_add(&la, anchor, &x->n); x->where = 1; }
+            else if (what < 11) { a_slist_add_tail(&lb, &x->n); x->where = 2; }
+            else { a_slist_add_head(&lb, &x->n); x->where = 2; }
+        }
+        else if (x->where == 1)
+        {
+            if (what < 3)
+            {
+                if (x->n.next) { a_slist_entry(x->n.next, mt_sn, n)->where = 0; }
+                a_slist_del(&la, &x->n);
+            }
+            else if (what < 5)
+            {
+                if (la.head.next) { a_slist_entry(la.head.next, mt_sn, n)->where = 0; }
+                if (what == 3) { a_slist_del_head(&la); } else { a_slist_del(&la, &la.head); }
+            }
+            else if (what < 7) { a_slist_rot(&la); }
+            else if (what < 10)
+            {
+                a_slist_foreach(it, &lb) { a_slist_entry(it, mt_sn, n)->where = 1; }
+                a_slist_mov(&lb, &la, anchor);
+                a_slist_init(&lb);
+            }
+            else
+            {
+                /* everything behind x goes to list B's front, unlinked one by one */
+                while (x->n.next)
+                {
+                    a_slist_node *const v = x->n.next;
+                    a_slist_del(&la, &x->n);
+                    a_slist_add_head(&lb, v);
+                    a_slist_entry(v, mt_sn, n)->where = 2;
+                }
+            }
+        }
+        else if (what < 4) { a_slist_rot(&lb); }
+        else if (what < 6 && lb.head.next) { a_slist_entry(lb.head.next, mt_sn, n)->where = 0; a_slist_del_head(&lb); }
+        h = mt_slist_fold(h, &la);
+        h = mt_slist_fold(h, &lb);
+    }
+    {
+        unsigned left = 0;
+        a_slist_forsafe(it, at, &la) { a_slist_del(&la, at); it = NULL; ++left; }
+        h = mt_fold_u64(h, left);
+        h = mt_slist_fold(h, &la);
+        a_slist_dtor(&lb);
+        h = mt_slist_fold(h, &lb);
+    }
+    return h;
+}
+
+typedef struct { uint32_t key, tag; } mt_qe;
+static int mt_qcmp(void const *l, void const *r)
+{
+    mt_qe const *a = (mt_qe const *)l, *b = (mt_qe const *)r;
+    return (a->key > b->key) - (a->key < b->key);
+}
+static void mt_qdtor(void *p) { mt_cb_acc = mt_fold_bytes(mt_cb_acc ^ 0xD5, p, sizeof(mt_qe)); }
+static uint64_t mt_que_fold(uint64_t h, a_que const *q)
+{
+    unsigned cnt = 0;
+    mt_qe *it, *at;
+    h = mt_fold_u64(h, a_que_num(q)); h = mt_fold_u64(h, a_que_siz(q));
+    h = mt_fold_u64(h, q->cur_); h = mt_fold_u64(h, q->mem_);
+    a_que_foreach(mt_qe, *, e, q) { h = mt_fold_u64(h, ((uint64_t)e->key << 32) | e->tag); ++cnt; }
+    a_que_foreach_reverse(mt_qe, *, e, q) { h = mt_fold_u64(h, ((uint64_t)e->tag << 32) | e->key); --cnt; }
+    A_QUE_FOREACH(mt_qe *, it, at, q) { h = mt_fold_u64(h, it->key); }
+    A_QUE_FOREACH_REVERSE(mt_qe *, it, at, q) { h = mt_fold_u64(h, it->tag); }
+    return mt_fold_u64(h, cnt);
+}
+#define MT_QE(p) ((p) ? (((uint64_t)((mt_qe *)(p))->key << 32) | ((mt_qe *)(p))->tag) : 0xFFFFFFFFFFFFull)
+static uint64_t it_que(vf_rng *r)
+{
+    int const heap = vf_chance(r, 1, 2);
+    a_que sq, other, *q = &sq;
+    uint64_t h = 0x9C05;
+    uint32_t tag = 0;
+    unsigned const nops = 80 + (unsigned)vf_below(r, 160);
+    mt_cb_acc = 0;
+    MT_OOM_BEGIN(r);
+    if (!heap) { a_que_ctor(q, sizeof(mt_qe)); }
+    else if ((q = a_que_new(sizeof(mt_qe))) == NULL) { MT_OOM_END(h); return h; }
+    a_que_ctor(&other, sizeof(mt_qe) + 4);
+    for (unsigned op = 0; op < nops; ++op)
+    {
+        unsigned what = (unsigned)vf_below(r, 24);
+        a_size const n = a_que_num(q);
+        mt_qe key, *p;
+        if (n > 32 && what < 9) { what = 9 + what % 4; }
+        key.key = (uint32_t)vf_below(r, 64); key.tag = ++tag;
+        h = mt_fold_u64(h, what);
+        switch (what)
+        {
+        case 0: case 1: if ((p = A_QUE_PUSH_BACK(mt_qe, q)) != NULL) { *p = key; } h = mt_fold_u64(h, p != NULL); break;
+        case 2: case 3: if ((p = A_QUE_PUSH_FORE(mt_qe, q)) != NULL) { *p = key; } h = mt_fold_u64(h, p != NULL); break;
+        case 4: case 5: if ((p = A_QUE_INSERT(mt_qe, q, (a_size)vf_below(r, n + 3))) != NULL) { *p = key; } h = mt_fold_u64(h, p != NULL); break;
+        case 6: if ((p = A_QUE_PUSH_SORT(mt_qe, q, &key, mt_qcmp)) != NULL) { *p = key; } h = mt_fold_u64(h, p != NULL); break;
+        case 7: if ((p = A_QUE_PUSH_FORE(mt_qe, q)) != NULL) { *p = key; a_que_sort_fore(q, mt_qcmp); } h = mt_fold_u64(h, p != NULL); break;
+        case 8: if ((p = A_QUE_PUSH_BACK(mt_qe, q)) != NULL) { *p = key; a_que_sort_back(q, mt_qcmp); } h = mt_fold_u64(h, p != NULL); break;
+        case 9: case 10: p = A_QUE_PULL_BACK(mt_qe, q); h = mt_fold_u64(h, MT_QE(p)); break;
+        case 11: p = A_QUE_PULL_FORE(mt_qe, q); h = mt_fold_u64(h, MT_QE(p)); break;
+        case 12: p = A_QUE_REMOVE(mt_qe, q, (a_size)vf_below(r, n + 3)); h = mt_fold_u64(h, MT_QE(p)); break;
+        case 13: case 14:
+            p = A_QUE_AT(mt_qe, q, (a_diff)vf_range(r, -(int64_t)n - 2, (int64_t)n + 1)); h = mt_fold_u64(h, MT_QE(p));
+            p = A_QUE_FORE(mt_qe, q); h = mt_fold_u64(h, MT_QE(p));
+            p = A_QUE_BACK(mt_qe, q); h = mt_fold_u64(h, MT_QE(p));
+            if (n) { h = mt_fold_u64(h, MT_QE(A_QUE_FORE_(mt_qe, q))); h = mt_fold_u64(h, MT_QE(A_QUE_BACK_(mt_qe, q))); }
+            break;
+        case 15: case 16:
+            if (n >= 3)
+            {
+                /* two elements that are not neighbours */
+                a_size const a = (a_size)vf_below(r, n - 2), b = a + 2 + (a_size)vf_below(r, n - 2 - a);
+                a_que_swap_(a_que_at(q, (a_diff)a), a_que_at(q, (a_diff)b));
+            }
+            break;
+        case 17: case 18: a_que_swap(q, &other); break;
+        case 19: h = mt_fold_u64(h, (uint64_t)(unsigned)a_que_drop(q, vf_chance(r, 1, 2) ? mt_qdtor : NULL)); break;
+        case 20: h = mt_fold_u64(h, (uint64_t)(unsigned)a_que_setz(q, sizeof(mt_qe) + (a_size)vf_below(r, 40), vf_chance(r, 1, 2) ? mt_qdtor : NULL)); break;
+        default:
+            /* a burst at both ends */
+            for (unsigned k = (unsigned)vf_below(r, 6); k; --k)
+            {
+                key.tag = ++tag;
+                if ((p = (k & 1) ? A_QUE_PUSH_BACK(mt_qe, q) : A_QUE_PUSH_FORE(mt_qe, q)) != NULL) { *p = key; }
+            }
+            break;
+        }
+        h = mt_que_fold(h, q);
+        if (what == 17 || what == 18) { h = mt_que_fold(h, &other); }
+    }
+    h = mt_que_fold(h, &other);
+    a_que_dtor(&other, vf_chance(r, 1, 2) ? mt_qdtor : NULL);
+    if (heap) { a_que_die(q, mt_qdtor); }
+    else { a_que_dtor(q, mt_qdtor); h = mt_fold_u64(h, a_que_num(q) + a_que_siz(q)); }
+    MT_OOM_END(h);
+    return mt_fold_u64(h, mt_cb_acc);
+}
+#endif
+#if VF_MT == 5
+static mt_item const ITEMS[] = {{"list-history", it_list}, {"list-history-2", it_list}, {"slist-history", it_slist}, {"slist-history-2", it_slist},
+                                {"que-history", it_que}, {"que-history-2", it_que}, {"que-history-3", it_que}};
+#endif /* C05 */
+
+/* ============================================================================================ C06: dynamic string */
+#if VF_MT == 6 || VF_MT == 7
+#include "a/str.h"
+#include "a/utf.h"
+#include <stdarg.h>
+static int mt_sgn(int x) { return (x > 0) - (x < 0); }
+/* length, capacity, content; the byte behind the content only where the last call promises a terminator */
+static uint64_t mt_str_fold(uint64_t h, a_str const *s, int term)
+{
+    h = mt_fold_u64(h, a_str_len(s)); h = mt_fold_u64(h, a_str_mem(s));
+    h = mt_fold_u64(h, a_str_ptr(s) ? 1 : 0);
+    if (a_str_ptr(s)) { h = mt_fold_bytes(h, a_str_ptr(s), a_str_len(s)); }
+    if (term && a_str_ptr(s) && a_str_len(s) < a_str_mem(s)) { h = mt_fold_u64(h, 0x7E00u | (unsigned char)a_str_ptr(s)[a_str_len(s)]); }
+    return h;
+}
+static size_t mt_draw_text(vf_rng *r, char *m, size_t cap, int binary)
+{
+    static char const alphabet[] = " \t\n,;abcxyzABC0189-_%";
+    size_t const n = (size_t)vf_below(r, cap);
+    for (size_t i = 0; i < n; ++i)
+    {
+        m[i] = (binary && vf_chance(r, 1, 4)) ? (char)(1 + vf_below(r, 255)) : alphabet[vf_below(r, sizeof alphabet - 1)];
+    }
+    m[n] = 0;
+    return n;
+}
+static int mt_catv(a_str *s, char const *fmt, ...)
+{
+    int res;
+    va_list va;
+    va_start(va, fmt);
+    res = a_str_catv(s, fmt, va);
+    va_end(va);
+    return res;
+}
+static uint64_t it_str(vf_rng *r)
+{
+    int const heap = vf_chance(r, 1, 2), binary = vf_chance(r, 1, 2);
+    a_str ss, other = A_STR_INIT, *s = &ss;
+    uint64_t h = 0xC06;
+    unsigned const nops = 80 + (unsigned)vf_below(r, 160);
+    MT_OOM_BEGIN(r);
+    if (!heap) { a_str_ctor(s); }
+    else if ((s = a_str_new()) == NULL) { MT_OOM_END(h); return h; }
+    for (unsigned op = 0; op < nops; ++op)
+    {
+        unsigned what = (unsigned)vf_below(r, 40);
+        char text[49], out[64];
+        size_t const tn = mt_draw_text(r, text, 48, binary);
+        a_size const len = a_str_len(s);
+        int term = 0, rc;
+        if (len > 400 && what < 16) { what = 16 + what % 6; }
+        h = mt_fold_u64(h, what);
+        switch (what)
+        {
+        case 0: rc = a_str_catc(s, (int)(unsigned char)text[0]); h = mt_fold_u64(h, (uint64_t)(unsigned)rc); term = rc != ~0; break;
+        case 1: rc = a_str_catc_(s, (int)vf_below(r, 256)); h = mt_fold_u64(h, (uint64_t)(unsigned)rc); break;
+        case 2: rc = a_str_catn(s, text, tn); h = mt_fold_u64(h, (uint64_t)(unsigned)rc); term = !rc; break;
+        case 3: rc = a_str_catn_(s, text, tn); h = mt_fold_u64(h, (uint64_t)(unsigned)rc); break;
+        case 4: rc = a_str_cats(s, text); h = mt_fold_u64(h, (uint64_t)(unsigned)rc); term = !rc; break;
+        case 5: rc = a_str_cats_(s, text); h = mt_fold_u64(h, (uint64_t)(unsigned)rc); break;
+        case 6: rc = a_str_cat(s, vf_chance(r, 1, 3) ? s : &other); h = mt_fold_u64(h, (uint64_t)(unsigned)rc); term = !rc; break;
+        case 7: rc = a_str_cat_(s, vf_chance(r, 1, 3) ? s : &other); h = mt_fold_u64(h, (uint64_t)(unsigned)rc); break;
+        case 8:
+            if (len)
+            {
+                /* a piece of the string's own content appended to it: the block may move while it is being read */
+                a_size const at = (a_size)vf_below(r, len), k = (a_size)vf_below(r, len - at + 1);
+                rc = vf_chance(r, 1, 2) ? a_str_catn(s, a_str_ptr(s) + at, k) : a_str_catn_(s, a_str_ptr(s) + at, k);
+                h = mt_fold_u64(h, (uint64_t)(unsigned)rc);
+            }
+            break;
+        case 9: case 10: case 11: case 12:
+        {
+            int const d = (int)vf_range(r, -100000, 100000), c = 'a' + (int)vf_below(r, 26), w = (int)vf_below(r, 12);
+            unsigned const u = (unsigned)vf_u64(r) >> vf_below(r, 32);
+            switch (vf_below(r, 8))
+            {
+            case 0: rc = a_str_catf(s, "%d", d); break;
+            case 1: rc = a_str_catf(s, "[%5d|%-8s|%c|%#x|%03u]", d, text, c, u, u % 1000); break;
+            case 2: rc = a_str_catf(s, "%s", text); break;
+            case 3: rc = a_str_catf(s, "%c%c%%%x", c, c + 1 > 'z' ? 'a' : c + 1, u); break;
+            case 4: rc = a_str_catf(s, "%*d:%.*s;", w, d, w, text); break;
+            case 5: rc = mt_catv(s, "<%u,%d,%s>", u, d, text); break;
+            case 6: rc = mt_catv(s, "%s%s", text, text); break;
+            default: rc = a_str_catf(s, "%s", ""); break;
+            }
+            h = mt_fold_u64(h, (uint64_t)(unsigned)rc);
+            term = 1;
+            break;
+        }
+        case 13: rc = a_utf_catc(s, (a_u32)(1 + vf_below(r, vf_chance(r, 1, 2) ? 0x7FF : 0x10FFFF))); h = mt_fold_u64(h, (uint64_t)(unsigned)rc); term = !rc; break;
+        case 14: h = mt_fold_u64(h, (uint64_t)(unsigned)a_str_setm(s, (a_size)vf_below(r, a_str_mem(s) + 40))); break;
+        case 15: h = mt_fold_u64(h, (uint64_t)(unsigned)a_str_setm_(s, len + 1 + (a_size)vf_below(r, 24))); break;
+        case 16: rc = a_str_getc(s); h = mt_fold_u64(h, (uint64_t)(unsigned)rc); term = len > 0; break;
+        case 17: rc = a_str_getc_(s); h = mt_fold_u64(h, (uint64_t)(unsigned)rc); break;
+        case 18: case 19:
+        {
+            a_size const want = (a_size)vf_below(r, 64), got = what == 18 ? a_str_getn(s, out, want) : a_str_getn_(s, out, want);
+            h = mt_fold_u64(h, got); h = mt_fold_bytes(h, out, got);
+            term = what == 18 && got > 0;
+            break;
+        }
+        case 20: h = mt_fold_u64(h, a_str_getn(s, NULL, (a_size)vf_below(r, 9))); break;
+        case 21: h = mt_fold_u64(h, a_str_getn_(s, NULL, (a_size)vf_below(r, 9))); break;
+        case 22: case 23: case 24: case 25: case 26: case 27:
+        {
+            /* explicit set, or (text strings only) the white space default */
+            a_size const before = len, sn = (!binary && vf_chance(r, 1, 3)) ? 0 : 1 + (a_size)vf_below(r, 6);
+            char const *const set = " \t,;ax" + vf_below(r, 2);
+            switch (what)
+            {
+            case 22: a_str_rtrim(s, set, sn); break;
+            case 23: a_str_rtrim_(s, set, sn); break;
+            case 24: a_str_ltrim(s, set, sn); break;
+            case 25: a_str_ltrim_(s, set, sn); break;
+            case 26: a_str_trim(s, set, sn); break;
+            default: a_str_trim_(s, set, sn); break;
+            }
+            term = !(what & 1) && a_str_len(s) < before;
+            break;
+        }
+        case 28:
+            h = mt_fold_u64(h, (uint64_t)(unsigned)mt_sgn(a_str_cmp(s, &other)));
+            h = mt_fold_u64(h, (uint64_t)(unsigned)mt_sgn(a_str_cmp(&other, s)));
+            h = mt_fold_u64(h, (uint64_t)(unsigned)mt_sgn(a_str_cmp(s, s)));
+            break;
+        case 29: h = mt_fold_u64(h, (uint64_t)(unsigned)mt_sgn(a_str_cmpn(s, text, tn))); break;
+        case 30: h = mt_fold_u64(h, (uint64_t)(unsigned)mt_sgn(a_str_cmps(s, text))); break;
+        case 31:
+            h = mt_fold_u64(h, (uint64_t)(unsigned)mt_sgn(a_str_cmp_(a_str_ptr(s), len, text, tn)));
+            h = mt_fold_u64(h, (uint64_t)(unsigned)mt_sgn(a_str_cmp_(NULL, 0, text, tn)));
+            if (len)
+            {
+                /* against a copy of its own prefix */
+                a_size const k = (a_size)vf_below(r, (len < sizeof out ? len : sizeof out) + 1);
+                memcpy(out, a_str_ptr(s), k);
+                h = mt_fold_u64(h, (uint64_t)(unsigned)mt_sgn(a_str_cmpn(s, out, k)));
+            }
+            break;
+        case 32:
+        {
+            /* count moved by the caller: down, or up into owned room that the caller then fills */
+            a_size const to = (a_size)vf_below(r, a_str_mem(s) + 3);
+            rc = a_str_setn(s, to);
+            h = mt_fold_u64(h, (uint64_t)(unsigned)rc);
+            for (a_size i = len; !rc && i < to; ++i) { *a_str_at_(s, i) = (char)('a' + i % 26); }
+            break;
+        }
+        case 33: if (len) { a_str_setn_(s, (a_size)vf_below(r, len + 1)); } break;
+        case 34: a_str_swap(s, &other); break;
+        case 35:
+        {
+            char *const p = a_str_exit(s);
+            h = mt_fold_u64(h, p ? 1 : 0);
+            if (p)
+            {
+                h = mt_fold_bytes(h, p, len + 1);
+                a_alloc(p, 0);
+                h = mt_str_fold(h, s, 0);
+            }
+            break;
+        }
+        case 36:
+        {
+            a_size stop = 0;
+            h = mt_fold_u64(h, a_utf_len(s, &stop));
+            h = mt_fold_u64(h, stop);
+            h = mt_fold_u64(h, a_utf_len(s, NULL));
+            break;
+        }
+        case 37:
+        {
+            a_size const idx = (a_size)vf_below(r, a_str_mem(s) + 3);
+            a_diff const of = (a_diff)vf_range(r, -(int64_t)a_str_mem(s) - 2, (int64_t)a_str_mem(s) + 2);
+            h = mt_fold_u64(h, MT_OFF(a_str_ptr(s), a_str_at(s, idx)));
+            h = mt_fold_u64(h, MT_OFF(a_str_ptr(s), a_str_of(s, of)));
+            break;
+        }
+        case 38: a_str_dtor(s); h = mt_str_fold(h, s, 0); a_str_ctor(s); break;
+        default:
+            /* the other string gets fresh content */
+            a_str_dtor(&other);
+            rc = binary ? a_str_catn_(&other, text, tn) : a_str_cats(&other, text);
+            h = mt_fold_u64(h, (uint64_t)(unsigned)rc);
+            h = mt_str_fold(h, &other, !binary && !rc);
+            break;
+        }
+        h = mt_str_fold(h, s, term);
+    }
+    h = mt_str_fold(h, &other, 0);
+    a_str_dtor(&other);
+    if (heap) { a_str_die(s); }
+    else { a_str_dtor(s); h = mt_str_fold(h, s, 0); }
+    MT_OOM_END(h);
+    return h;
+}
+#endif
+#if VF_MT == 6
+static mt_item const ITEMS[] = {{"str-history", it_str}, {"str-history-2", it_str}, {"str-history-3", it_str}, {"str-history-4", it_str}};
+#endif /* C06 */
+
+#if VF_MT == 7
+static mt_item const ITEMS[] = {{"oom-vec-1", it_vec1}, {"oom-vec-4", it_vec4}, {"oom-vec-7", it_vec7}, {"oom-vec-16", it_vec16},
+                                {"oom-buf-1", it_buf1}, {"oom-buf-4", it_buf4}, {"oom-buf-7", it_buf7}, {"oom-buf-16", it_buf16},
+                                {"oom-que", it_que}, {"oom-que-2", it_que}, {"oom-que-3", it_que},
+                                {"oom-str", it_str}, {"oom-str-2", it_str}, {"oom-str-3", it_str}};
+#endif /* C07 */
+
+/* ============================================================================================ C08: factorizations */
+#if VF_MT == 8
+#include "a/linalg.h"
+#define MT_NMAX 8
+static uint64_t mt_fold_reals(uint64_t h, a_real const *p, size_t n)
+{
+    for (size_t i = 0; i < n; ++i) { h = mt_fold_real(h, p[i]); }
+    return h;
+}
+static void mt_draw_ints(vf_rng *r, a_real *p, size_t n, int lim)
+{
+    for (size_t i = 0; i < n; ++i) { p[i] = (a_real)vf_range(r, -lim, lim); }
+}
+/* symmetric positive definite B^T B + I, or (sym) a symmetric indefinite integer matrix; `defect` plants an exact failure */
+static void mt_draw_sym(vf_rng *r, unsigned n, a_real *A, int spd, int defect)
+{
+    a_real B[MT_NMAX * MT_NMAX];
+    mt_draw_ints(r, B, (size_t)n * n, 3);
+    for (unsigned i = 0; i < n; ++i)
+    {
+        for (unsigned j = 0; j <= i; ++j)
+        {
+            a_real s = 0;
+            if (spd) { for (unsigned k = 0; k < n; ++k) { s += B[k * n + i] * B[k * n + j]; } s += (i == j); }
+            else { s = (i == j) ? (a_real)(vf_sign(r) * (double)vf_range(r, 1, 9)) : B[i * n + j]; }
+            A[i * n + j] = A[j * n + i] = s;
+        }
+    }
+    if (defect)
+    {
+        /* row and column k cleared: the k-th pivot is exactly zero */
+        unsigned const k = (unsigned)vf_below(r, n);
+        for (unsigned i = 0; i < n; ++i) { A[i * n + k] = A[k * n + i] = 0; }
+    }
+}
+static uint64_t it_plu(vf_rng *r)
+{
+    uint64_t h = 0xC08;
+    for (int rep = 0; rep < 4; ++rep)
+    {
+        unsigned const n = 1 + (unsigned)vf_below(r, MT_NMAX);
+        a_real A[MT_NMAX * MT_NMAX], M[MT_NMAX * MT_NMAX], W[MT_NMAX * MT_NMAX], b[MT_NMAX], x[MT_NMAX], t[MT_NMAX];
+        a_uint p[MT_NMAX];
+        int sign = 7, rc;
+        mt_draw_ints(r, A, (size_t)n * n, vf_chance(r, 1, 2) ? 4 : 100);
+        if (vf_chance(r, 1, 4))
+        {
+            /* exactly singular: a repeated row or a zero column */
+            unsigned const i = (unsigned)vf_below(r, n), j = (unsigned)vf_below(r, n);
+            if (i != j && vf_chance(r, 1, 2)) { memcpy(A + i * n, A + j * n, sizeof(a_real) * n); }
+            else { for (unsigned k = 0; k < n; ++k) { A[k * n + j] = 0; } }
+        }
+        mt_draw_ints(r, b, n, 9);
+        rc = a_real_plu(n, A, p, &sign);
+        h = mt_fold_u64(h, ((uint64_t)n << 8) | (unsigned)rc);
+        h = mt_fold_u64(h, (uint64_t)(unsigned)sign);
+        h = mt_fold_reals(h, A, (size_t)n * n);
+        for (unsigned i = 0; i < n; ++i) { h = mt_fold_u64(h, p[i]); }
+        if (rc)
+        {
+            /* refused: the determinant family still reads the diagonal reached so far, with its exact zero */
+            h = mt_fold_real(h, a_real_plu_det(n, A, sign));
+            h = mt_fold_u64(h, (uint64_t)(unsigned)a_real_plu_sgndet(n, A, sign));
+            continue;
+        }
+        a_real_plu_P(n, p, M); h = mt_fold_reals(h, M, (size_t)n * n);
+        a_real_plu_P_(n, p, M); h = mt_fold_reals(h, M, (size_t)n * n);
+        a_real_plu_L(n, A, M); h = mt_fold_reals(h, M, (size_t)n * n);
+        a_real_plu_U(n, A, M); h = mt_fold_reals(h, M, (size_t)n * n);
+        a_real_plu_apply(n, p, b, t); h = mt_fold_reals(h, t, n);
+        a_real_plu_lower(n, A, t); h = mt_fold_reals(h, t, n);
+        a_real_plu_upper(n, A, t); h = mt_fold_reals(h, t, n);
+        a_real_plu_solve(n, A, p, b, x); h = mt_fold_reals(h, x, n);
+        a_real_plu_inv(n, A, p, t, M); h = mt_fold_reals(h, M, (size_t)n * n); h = mt_fold_reals(h, t, n);
+        a_real_plu_inv_(n, A, p, W); h = mt_fold_reals(h, W, (size_t)n * n);
+        /* the strided forms on the columns of a matrix of right-hand sides */
+        mt_draw_ints(r, W, (size_t)n * n, 9);
+        for (unsigned c = 0; c < n; ++c) { a_real_plu_lower_(n, A, W + c); }
+        h = mt_fold_reals(h, W, (size_t)n * n);
+        for (unsigned c = 0; c < n; ++c) { a_real_plu_upper_(n, A, W + c); }
+        h = mt_fold_reals(h, W, (size_t)n * n);
+        h = mt_fold_real(h, a_real_plu_det(n, A, sign));
+        h = mt_fold_real(h, a_real_plu_lndet(n, A));
+        h = mt_fold_u64(h, (uint64_t)(unsigned)a_real_plu_sgndet(n, A, sign));
+    }
+    return h;
+}
+#define MT_SYM_ITEM(P, SPD, SEED, EXTRA, EXTRA0)                                                                   \
+    static uint64_t it_##P(vf_rng *r)                                                                              \
+    {                                                                                                              \
+        uint64_t h = SEED;                                                                                         \
+        for (int rep = 0; rep < 4; ++rep)                                                                          \
+        {                                                                                                          \
+            unsigned const n = 1 + (unsigned)vf_below(r, MT_NMAX);                                                 \
+            a_real A[MT_NMAX * MT_NMAX], M[MT_NMAX * MT_NMAX], W[MT_NMAX * MT_NMAX], b[MT_NMAX], x[MT_NMAX], t[MT_NMAX]; \
+            int rc;                                                                                                \
+            mt_draw_sym(r, n, A, SPD || vf_chance(r, 1, 2), vf_chance(r, 1, 5));                                   \
+            mt_draw_ints(r, b, n, 9);                                                                              \
+            rc = a_real_##P(n, A);                                                                                 \
+            h = mt_fold_u64(h, ((uint64_t)n << 8) | (unsigned)rc);                                                 \
+            h = mt_fold_reals(h, A, (size_t)n * n);                                                                \
+            if (rc) { h = mt_fold_real(h, a_real_##P##_det(n, A)); EXTRA0 continue; }                              \
+            a_real_##P##_L(n, A, M); h = mt_fold_reals(h, M, (size_t)n * n);                                       \
+            memcpy(t, b, sizeof t);                                                                                \
+            a_real_##P##_lower(n, A, t); h = mt_fold_reals(h, t, n);                                               \
+            a_real_##P##_upper(n, A, t); h = mt_fold_reals(h, t, n);                                               \
+            memcpy(x, b, sizeof x);                                                                                \
+            a_real_##P##_solve(n, A, x); h = mt_fold_reals(h, x, n);                                               \
+            a_real_##P##_inv(n, A, t, M); h = mt_fold_reals(h, M, (size_t)n * n); h = mt_fold_reals(h, t, n);      \
+            a_real_##P##_inv_(n, A, W); h = mt_fold_reals(h, W, (size_t)n * n);                                    \
+            mt_draw_ints(r, W, (size_t)n * n, 9);                                                                  \
+            for (unsigned c = 0; c < n; ++c) { a_real_##P##_lower_(n, A, W + c); }                                 \
+            h = mt_fold_reals(h, W, (size_t)n * n);                                                                \
+            for (unsigned c = 0; c < n; ++c) { a_real_##P##_upper_(n, A, W + c); }                                 \
+            h = mt_fold_reals(h, W, (size_t)n * n);                                                                \
+            h = mt_fold_real(h, a_real_##P##_det(n, A));                                                           \
+            h = mt_fold_real(h, a_real_##P##_lndet(n, A));                                                         \
+            EXTRA                                                                                                  \
+        }                                                                                                          \
+        return h;                                                                                                  \
+    }
+MT_SYM_ITEM(ldl, 0, 0x1C08, a_real_ldl_D(n, A, t); h = mt_fold_reals(h, t, n); h = mt_fold_u64(h, (uint64_t)(unsigned)a_real_ldl_sgndet(n, A));,
+            h = mt_fold_u64(h, (uint64_t)(unsigned)a_real_ldl_sgndet(n, A));)
+MT_SYM_ITEM(llt, 1, 0x2C08, , )
+static mt_item const ITEMS[] = {{"plu", it_plu}, {"plu-2", it_plu}, {"ldl", it_ldl}, {"ldl-2", it_ldl}, {"llt", it_llt}, {"llt-2", it_llt}};
+#endif /* C08 */
+
+/* ============================================================================================ C09: matrix kernels */
+#if VF_MT == 9
+#include "a/linalg.h"
+#define MT_DMAX 7
+static uint64_t mt_fold_reals(uint64_t h, a_real const *p, size_t n)
+{
+    for (size_t i = 0; i < n; ++i) { h = mt_fold_real(h, p[i]); }
+    return h;
+}
+static void mt_draw_ints(vf_rng *r, a_real *p, size_t n, int lim)
+{
+    for (size_t i = 0; i < n; ++i) { p[i] = (a_real)vf_range(r, -lim, lim); }
+}
+static uint64_t it_mul(vf_rng *r)
+{
+    uint64_t h = 0xC09;
+    for (int rep = 0; rep < 6; ++rep)
+    {
+        unsigned const row = (unsigned)vf_below(r, MT_DMAX + 1), c_r = (unsigned)vf_below(r, MT_DMAX + 1), col = (unsigned)vf_below(r, MT_DMAX + 1);
+        a_real X[MT_DMAX * MT_DMAX], Y[MT_DMAX * MT_DMAX], Z[MT_DMAX * MT_DMAX + 2];
+        int const lim = vf_chance(r, 1, 2) ? 9 : 100000;
+        mt_draw_ints(r, X, MT_DMAX * MT_DMAX, lim);
+        mt_draw_ints(r, Y, MT_DMAX * MT_DMAX, lim);
+        h = mt_fold_u64(h, (row << 16) | (c_r << 8) | col);
+        /* one cell in front and one behind the result must stay what they were */
+#define MT_MUL(fn, a, b, c)                                          \
+    mt_draw_ints(r, Z, MT_DMAX * MT_DMAX + 2, 5);                    \
+    h = mt_fold_real(h, Z[0]); h = mt_fold_real(h, Z[1 + row * col]); \
+    fn(a, b, c, X, Y, Z + 1);                                        \
+    h = mt_fold_reals(h, Z, (size_t)row * col + 2);
+        MT_MUL(a_real_mulmm, row, c_r, col)
+        MT_MUL(a_real_mulTm, c_r, row, col)
+        MT_MUL(a_real_mulmT, row, col, c_r)
+        MT_MUL(a_real_mulTT, row, c_r, col)
+#undef MT_MUL
+    }
+    return h;
+}
+static uint64_t it_shape(vf_rng *r)
+{
+    uint64_t h = 0x1C09;
+    for (int rep = 0; rep < 6; ++rep)
+    {
+        unsigned const m = (unsigned)vf_below(r, MT_DMAX + 1), n = (unsigned)vf_below(r, MT_DMAX + 1), k = m < n ? m : n;
+        a_real A[MT_DMAX * MT_DMAX], T[MT_DMAX * MT_DMAX + 2], d[MT_DMAX + 2];
+        mt_draw_ints(r, A, MT_DMAX * MT_DMAX, 1000);
+        h = mt_fold_u64(h, (m << 8) | n);
+#define MT_OUT2(call, cells)                            \
+    mt_draw_ints(r, T, MT_DMAX * MT_DMAX + 2, 5);       \
+    h = mt_fold_real(h, T[1 + (size_t)(cells)]);        \
+    call;                                               \
+    h = mt_fold_reals(h, T, (size_t)(cells) + 2);
+        MT_OUT2(a_real_T2(m, n, A, T + 1), m * n)
+        MT_OUT2(a_real_eye1(n, T + 1), n * n)
+        MT_OUT2(a_real_eye2(m, n, T + 1), m * n)
+        MT_OUT2(a_real_tri1(n, T + 1), n * n)
+        MT_OUT2(a_real_tri2(m, n, T + 1), m * n)
+        MT_OUT2(a_real_diag(n, A, T + 1), n * n)
+        MT_OUT2(a_real_triL(n, A, T + 1), n * n)
+        MT_OUT2(a_real_triL1(n, A, T + 1), n * n)
+        MT_OUT2(a_real_triL2(m, n, A, T + 1), m * n)
+        MT_OUT2(a_real_triU(n, A, T + 1), n * n)
+        MT_OUT2(a_real_triU1(n, A, T + 1), n * n)
+        MT_OUT2(a_real_triU2(m, n, A, T + 1), m * n)
+#undef MT_OUT2
+        mt_draw_ints(r, d, MT_DMAX + 2, 5);
+        a_real_diag1(n, A, d + 1); h = mt_fold_reals(h, d, n + 2);
+        mt_draw_ints(r, d, MT_DMAX + 2, 5);
+        a_real_diag2(m, n, A, d + 1); h = mt_fold_reals(h, d, k + 2);
+        /* in place */
+        memcpy(T, A, sizeof A);
+        a_real_T1(n, T); h = mt_fold_reals(h, T, MT_DMAX * MT_DMAX);
+        a_real_T1(m, T); h = mt_fold_reals(h, T, MT_DMAX * MT_DMAX);
+    }
+    return h;
+}
+static mt_item const ITEMS[] = {{"products", it_mul}, {"products-2", it_mul}, {"products-3", it_mul}, {"transpose-structure", it_shape}, {"transpose-structure-2", it_shape}};
+#endif /* C09 */
+
+/* ============================================================================================ C10: complex numbers */
+#if VF_MT == 10
+/* The out-of-place forms (and a few in-place ones) are inline functions of the header AND exported twins compiled from the same
+ * text into the library (what the language bindings link).  Both copies run here: the header is read with the inline bodies
+ * renamed to mt_inl_complex_*, then the plain names are declared as the exported functions. */
+#define a_complex_proj mt_inl_complex_proj
+#define a_complex_inv mt_inl_complex_inv
+#define a_complex_sqrt mt_inl_complex_sqrt
+#define a_complex_exp mt_inl_complex_exp
+#define a_complex_log mt_inl_complex_log
+#define a_complex_log2 mt_inl_complex_log2
+#define a_complex_log10 mt_inl_complex_log10
+#define a_complex_sin mt_inl_complex_sin
+#define a_complex_cos mt_inl_complex_cos
+#define a_complex_tan mt_inl_complex_tan
+#define a_complex_sec mt_inl_complex_sec
+#define a_complex_csc mt_inl_complex_csc
+#define a_complex_cot mt_inl_complex_cot
+#define a_complex_asin mt_inl_complex_asin
+#define a_complex_acos mt_inl_complex_acos
+#define a_complex_atan mt_inl_complex_atan
+#define a_complex_asec mt_inl_complex_asec
+#define a_complex_acsc mt_inl_complex_acsc
+#define a_complex_acot mt_inl_complex_acot
+#define a_complex_sinh mt_inl_complex_sinh
+#define a_complex_cosh mt_inl_complex_cosh
+#define a_complex_tanh mt_inl_complex_tanh
+#define a_complex_sech mt_inl_complex_sech
+#define a_complex_csch mt_inl_complex_csch
+#define a_complex_coth mt_inl_complex_coth
+#define a_complex_asinh mt_inl_complex_asinh
+#define a_complex_acosh mt_inl_complex_acosh
+#define a_complex_atanh mt_inl_complex_atanh
+#define a_complex_asech mt_inl_complex_asech
+#define a_complex_acsch mt_inl_complex_acsch
+#define a_complex_acoth mt_inl_complex_acoth
+#define a_complex_conj mt_inl_complex_conj
+#define a_complex_neg mt_inl_complex_neg
+#define a_complex_conj_ mt_inl_complex_conj_
+#define a_complex_neg_ mt_inl_complex_neg_
+#define a_complex_mul mt_inl_complex_mul
+#define a_complex_div mt_inl_complex_div
+#define a_complex_pow mt_inl_complex_pow
+#define a_complex_logb mt_inl_complex_logb
+#define a_complex_add mt_inl_complex_add
+#define a_complex_sub mt_inl_complex_sub
+#define a_complex_add_ mt_inl_complex_add_
+#define a_complex_sub_ mt_inl_complex_sub_
+#define a_complex_pow_real mt_inl_complex_pow_real
+#define a_complex_add_real mt_inl_complex_add_real
+#define a_complex_add_imag mt_inl_complex_add_imag
+#define a_complex_sub_real mt_inl_complex_sub_real
+#define a_complex_sub_imag mt_inl_complex_sub_imag
+#define a_complex_mul_real mt_inl_complex_mul_real
+#define a_complex_mul_imag mt_inl_complex_mul_imag
+#define a_complex_div_real mt_inl_complex_div_real
+#define a_complex_div_imag mt_inl_complex_div_imag
+#define a_complex_add_real_ mt_inl_complex_add_real_
+#define a_complex_add_imag_ mt_inl_complex_add_imag_
+#define a_complex_sub_real_ mt_inl_complex_sub_real_
+#define a_complex_sub_imag_ mt_inl_complex_sub_imag_
+#define a_complex_mul_real_ mt_inl_complex_mul_real_
+#define a_complex_mul_imag_ mt_inl_complex_mul_imag_
+#define a_complex_div_real_ mt_inl_complex_div_real_
+#define a_complex_div_imag_ mt_inl_complex_div_imag_
+#include "a/complex.h"
+#undef a_complex_proj
+#undef a_complex_inv
+#undef a_complex_sqrt
+#undef a_complex_exp
+#undef a_complex_log
+#undef a_complex_log2
+#undef a_complex_log10
+#undef a_complex_sin
+#undef a_complex_cos
+#undef a_complex_tan
+#undef a_complex_sec
+#undef a_complex_csc
+#undef a_complex_cot
+#undef a_complex_asin
+#undef a_complex_acos
+#undef a_complex_atan
+#undef a_complex_asec
+#undef a_complex_acsc
+#undef a_complex_acot
+#undef a_complex_sinh
+#undef a_complex_cosh
+#undef a_complex_tanh
+#undef a_complex_sech
+#undef a_complex_csch
+#undef a_complex_coth
+#undef a_complex_asinh
+#undef a_complex_acosh
+#undef a_complex_atanh
+#undef a_complex_asech
+#undef a_complex_acsch
+#undef a_complex_acoth
+#undef a_complex_conj
+#undef a_complex_neg
+#undef a_complex_conj_
+#undef a_complex_neg_
+#undef a_complex_mul
+#undef a_complex_div
+#undef a_complex_pow
+#undef a_complex_logb
+#undef a_complex_add
+#undef a_complex_sub
+#undef a_complex_add_
+#undef a_complex_sub_
+#undef a_complex_pow_real
+#undef a_complex_add_real
+#undef a_complex_add_imag
+#undef a_complex_sub_real
+#undef a_complex_sub_imag
+#undef a_complex_mul_real
+#undef a_complex_mul_imag
+#undef a_complex_div_real
+#undef a_complex_div_imag
+#undef a_complex_add_real_
+#undef a_complex_add_imag_
+#undef a_complex_sub_real_
+#undef a_complex_sub_imag_
+#undef a_complex_mul_real_
+#undef a_complex_mul_imag_
+#undef a_complex_div_real_
+#undef a_complex_div_imag_
+/* every function of a/complex.h by signature class (U: z -> w, B: z, y -> w, S: z, real -> w, X: real -> w; the classes with a 2
+ * have an inline in-place form as well) and by family */
+#define MT_CX_U_ARITH(X) X(proj) X(inv) X(sqrt)
+#define MT_CX_U2_ARITH(X) X(conj) X(neg)
+#define MT_CX_U_EXPLOG(X) X(exp) X(log) X(log2) X(log10)
+#define MT_CX_U_TRIG(X) X(sin) X(cos) X(tan)
+#define MT_CX_U_RTRIG(X) X(sec) X(csc) X(cot)
+#define MT_CX_U_ATRIG(X) X(asin) X(acos) X(atan)
+#define MT_CX_U_ARTRIG(X) X(asec) X(acsc) X(acot)
+#define MT_CX_U_HYP(X) X(sinh) X(cosh) X(tanh)
+#define MT_CX_U_RHYP(X) X(sech) X(csch) X(coth)
+#define MT_CX_U_AHYP(X) X(asinh) X(acosh) X(atanh)
+#define MT_CX_U_ARHYP(X) X(asech) X(acsch) X(acoth)
+#define MT_CX_B_ARITH(X) X(mul) X(div)
+#define MT_CX_B2_ARITH(X) X(add) X(sub)
+#define MT_CX_B_POW(X) X(pow) X(logb)
+#define MT_CX_S2_ARITH(X) X(add_real) X(add_imag) X(sub_real) X(sub_imag) X(mul_real) X(mul_imag) X(div_real) X(div_imag)
+#define MT_CX_S_POW(X) X(pow_real)
+#define MT_CX_X_ARITH(X) X(sqrt_real)
+#define MT_CX_X_ATRIG(X) X(asin_real) X(acos_real) X(asec_real) X(acsc_real)
+#define MT_CX_X_AHYP(X) X(acosh_real) X(atanh_real)
+#define MT_CX_DECL_U(F) A_EXTERN void a_complex_##F(a_complex *ctx, a_complex z);
+#define MT_CX_DECL_U2(F) MT_CX_DECL_U(F) A_EXTERN void a_complex_##F##_(a_complex *ctx);
+#define MT_CX_DECL_B(F) A_EXTERN void a_complex_##F(a_complex *ctx, a_complex x, a_complex y);
+#define MT_CX_DECL_B2(F) MT_CX_DECL_B(F) A_EXTERN void a_complex_##F##_(a_complex *ctx, a_complex z);
+#define MT_CX_DECL_S(F) A_EXTERN void a_complex_##F(a_complex *ctx, a_complex x, a_real y);
+#define MT_CX_DECL_S2(F) MT_CX_DECL_S(F) A_EXTERN void a_complex_##F##_(a_complex *ctx, a_real x);
+MT_CX_U_ARITH(MT_CX_DECL_U) MT_CX_U_EXPLOG(MT_CX_DECL_U) MT_CX_U_TRIG(MT_CX_DECL_U) MT_CX_U_RTRIG(MT_CX_DECL_U) MT_CX_U_ATRIG(MT_CX_DECL_U)
+MT_CX_U_ARTRIG(MT_CX_DECL_U) MT_CX_U_HYP(MT_CX_DECL_U) MT_CX_U_RHYP(MT_CX_DECL_U) MT_CX_U_AHYP(MT_CX_DECL_U) MT_CX_U_ARHYP(MT_CX_DECL_U)
+MT_CX_U2_ARITH(MT_CX_DECL_U2) MT_CX_B_ARITH(MT_CX_DECL_B) MT_CX_B_POW(MT_CX_DECL_B) MT_CX_B2_ARITH(MT_CX_DECL_B2)
+MT_CX_S_POW(MT_CX_DECL_S) MT_CX_S2_ARITH(MT_CX_DECL_S2)
+
+static a_real mt_draw_real(vf_rng *r)
+{
+    switch (vf_below(r, 10))
+    {
+    case 0: return (a_real)vf_range(r, -3, 3);
+    case 1: return (a_real)(vf_sign(r) * (1 + vf_uniform(r, -1e-3, 1e-3)));
+    case 2: return (a_real)(vf_sign(r) * vf_logu(r, -150, 150));
+    case 3: return (a_real)(vf_sign(r) * vf_logu(r, -12, -3));
+    case 4: return (a_real)(vf_sign(r) * vf_logu(r, 1, 3));
+    default: return (a_real)(vf_sign(r) * vf_logu(r, -2, 1));
+    }
+}
+static a_complex mt_draw_cx(vf_rng *r)
+{
+    a_complex z;
+    a_complex_rect(&z, mt_draw_real(r), vf_chance(r, 1, 8) ? 0 : mt_draw_real(r));
+    if (vf_chance(r, 1, 24)) { z.real = 0; z.imag = vf_chance(r, 1, 2) ? 0 : z.imag; }
+    return z;
+}
+static uint64_t mt_fold_cx(uint64_t h, a_complex z) { return mt_fold_real(mt_fold_real(h, z.real), z.imag); }
+
+/* exported twin, inline copy, in-place form (exported; for the classes with a 2 again both copies) */
+#define MT_CX_U(F) a_complex_##F(&w, z); h = mt_fold_cx(h, w); mt_inl_complex_##F(&w, z); h = mt_fold_cx(h, w); w = z; a_complex_##F##_(&w); h = mt_fold_cx(h, w);
+#define MT_CX_U2(F) MT_CX_U(F) w = z; mt_inl_complex_##F##_(&w); h = mt_fold_cx(h, w);
+#define MT_CX_B(F) a_complex_##F(&w, z, y); h = mt_fold_cx(h, w); mt_inl_complex_##F(&w, z, y); h = mt_fold_cx(h, w); w = z; a_complex_##F##_(&w, y); h = mt_fold_cx(h, w);
+#define MT_CX_B2(F) MT_CX_B(F) w = z; mt_inl_complex_##F##_(&w, y); h = mt_fold_cx(h, w);
+#define MT_CX_S(F) a_complex_##F(&w, z, x); h = mt_fold_cx(h, w); mt_inl_complex_##F(&w, z, x); h = mt_fold_cx(h, w); w = z; a_complex_##F##_(&w, x); h = mt_fold_cx(h, w);
+#define MT_CX_S2(F) MT_CX_S(F) w = z; mt_inl_complex_##F##_(&w, x); h = mt_fold_cx(h, w);
+#define MT_CX_X(F) a_complex_##F(&w, x); h = mt_fold_cx(h, w);
+#define MT_CX_ITEM(name, seed, BODY)                                  \
+    static uint64_t it_cx_##name(vf_rng *r)                           \
+    {                                                                 \
+        uint64_t h = seed;                                            \
+        for (int rep = 0; rep < 12; ++rep)                            \
+        {                                                             \
+            a_complex const z = mt_draw_cx(r), y = mt_draw_cx(r);     \
+            a_real const x = mt_draw_real(r);                         \
+            a_complex w;                                              \
+            (void)y; (void)x;                                         \
+            BODY                                                      \
+        }                                                             \
+        return h;                                                     \
+    }
+MT_CX_ITEM(arith, 0xC10, MT_CX_U_ARITH(MT_CX_U) MT_CX_U2_ARITH(MT_CX_U2) MT_CX_B_ARITH(MT_CX_B) MT_CX_B2_ARITH(MT_CX_B2) MT_CX_S2_ARITH(MT_CX_S2) MT_CX_X_ARITH(MT_CX_X))
+MT_CX_ITEM(explogpow, 0x1C10, MT_CX_U_EXPLOG(MT_CX_U) MT_CX_B_POW(MT_CX_B) MT_CX_S_POW(MT_CX_S))
+MT_CX_ITEM(trig, 0x2C10, MT_CX_U_TRIG(MT_CX_U))
+MT_CX_ITEM(rtrig, 0x3C10, MT_CX_U_RTRIG(MT_CX_U))
+MT_CX_ITEM(atrig, 0x4C10, MT_CX_U_ATRIG(MT_CX_U) MT_CX_X_ATRIG(MT_CX_X))
+MT_CX_ITEM(artrig, 0x5C10, MT_CX_U_ARTRIG(MT_CX_U))
+MT_CX_ITEM(hyp, 0x6C10, MT_CX_U_HYP(MT_CX_U))
+MT_CX_ITEM(rhyp, 0x7C10, MT_CX_U_RHYP(MT_CX_U))
+MT_CX_ITEM(ahyp, 0x8C10, MT_CX_U_AHYP(MT_CX_U) MT_CX_X_AHYP(MT_CX_X))
+MT_CX_ITEM(arhyp, 0x9C10, MT_CX_U_ARHYP(MT_CX_U))
+static uint64_t it_cx_polar(vf_rng *r)
+{
+    uint64_t h = 0xAC10;
+    for (int rep = 0; rep < 12; ++rep)
+    {
+        a_complex const z = mt_draw_cx(r);
+        a_complex y, w;
+        char text[96];
+        a_complex_polar(&w, (a_real)vf_logu(r, -3, 3), (a_real)vf_uniform(r, -10, 10)); h = mt_fold_cx(h, w);
+        a_complex_polar(&w, a_complex_abs(z), a_complex_arg(z)); h = mt_fold_cx(h, w);
+        a_complex_rect(&w, z.imag, z.real); h = mt_fold_cx(h, w);
+        /* the one place where an infinite component is the point */
+        a_complex_rect(&w, vf_chance(r, 1, 2) ? (a_real)vf_sign(r) * A_REAL_INF : z.real, vf_chance(r, 1, 2) ? (a_real)vf_sign(r) * A_REAL_INF : z.imag);
+        a_complex_proj(&y, w); h = mt_fold_cx(h, y);
+        mt_inl_complex_proj(&y, w); h = mt_fold_cx(h, y);
+        a_complex_proj_(&w); h = mt_fold_cx(h, w);
+        y = z;
+        if (vf_chance(r, 1, 3)) { y.imag = mt_draw_real(r); }
+        h = mt_fold_real(h, a_complex_abs(z));
+        h = mt_fold_real(h, a_complex_abs2(z));
+        h = mt_fold_real(h, a_complex_arg(z));
+        h = mt_fold_real(h, a_complex_logabs(z));
+        h = mt_fold_u64(h, (uint64_t)a_complex_eq(z, y) * 2 + (uint64_t)a_complex_ne(z, y));
+        h = mt_fold_u64(h, (uint64_t)a_complex_eq(z, z) * 2 + (uint64_t)a_complex_ne(z, z));
+        snprintf(text, sizeof text, vf_chance(r, 1, 2) ? "(%.17g,%.17g)" : " %.9g%+.9gi", (double)z.real, (double)z.imag);
+        h = mt_fold_u64(h, a_complex_parse(&w, text)); h = mt_fold_cx(h, w);
+        h = mt_fold_u64(h, a_complex_parse(&w, "no digits here")); h = mt_fold_cx(h, w);
+    }
+    return h;
+}
+static mt_item const ITEMS[] = {{"arithmetic", it_cx_arith}, {"exp-log-pow", it_cx_explogpow}, {"trig", it_cx_trig}, {"reciprocal-trig", it_cx_rtrig},
+                                {"inverse-trig", it_cx_atrig}, {"inverse-reciprocal-trig", it_cx_artrig}, {"hyperbolic", it_cx_hyp},
+                                {"reciprocal-hyperbolic", it_cx_rhyp}, {"inverse-hyperbolic", it_cx_ahyp}, {"inverse-reciprocal-hyperbolic", it_cx_arhyp},
+                                {"polar-rect-abs-arg-eq-parse", it_cx_polar}};
+#endif /* C10 */
+
+/* ============================================================================================ C11: real helpers */
+#if VF_MT == 11
+#include "a/math.h"
+static uint64_t mt_fold_reals(uint64_t h, a_real const *p, size_t n)
+{
+    for (size_t i = 0; i < n; ++i) { h = mt_fold_real(h, p[i]); }
+    return h;
+}
+static a_real mt_draw_mag(vf_rng *r)
+{
+    switch (vf_below(r, 8))
+    {
+    case 0: return (a_real)vf_range(r, -3, 3);
+    case 1: return (a_real)(vf_sign(r) * vf_logu(r, -300, 300));
+    case 2: return (a_real)(vf_sign(r) * vf_logu(r, -20, -6));
+    case 3: return (a_real)(vf_sign(r) * vf_logu(r, 1, 8));
+    default: return (a_real)(vf_sign(r) * vf_logu(r, -3, 1));
+    }
+}
+/* the names as the header binds them: libm where the configuration has A_HAVE_*, else the library's own bodies */
+#define MT_SPECIAL_BODY(seed)                                                             \
+    uint64_t h = seed;                                                                    \
+    for (int rep = 0; rep < 40; ++rep)                                                    \
+    {                                                                                     \
+        a_real const x = mt_draw_mag(r), y = mt_draw_mag(r), ax = x < 0 ? -x : x;         \
+        h = mt_fold_real(h, a_real_asinh(x));                                             \
+        h = mt_fold_real(h, a_real_acosh(vf_chance(r, 1, 8) ? x : 1 + ax));               \
+        h = mt_fold_real(h, a_real_atanh(vf_chance(r, 1, 8) ? x : x / (1 + ax)));         \
+        h = mt_fold_real(h, a_real_expm1(ax > 700 ? x / ax * (a_real)vf_uniform(r, 0, 700) : x)); \
+        h = mt_fold_real(h, a_real_log1p(vf_chance(r, 1, 8) ? x : ax - (a_real)vf_unit(r))); \
+        h = mt_fold_real(h, a_real_atan2(y, x));                                          \
+        h = mt_fold_real(h, a_real_atan2(x, (a_real)0));                                  \
+        h = mt_fold_real(h, a_real_hypot(x, y));                                          \
+    }                                                                                     \
+    return h;
+static uint64_t it_special_header(vf_rng *r) { MT_SPECIAL_BODY(0xC11) }
+static uint64_t it_norms(vf_rng *r)
+{
+    uint64_t h = 0x1C11;
+    for (int rep = 0; rep < 16; ++rep)
+    {
+        a_real v[24], o[3];
+        size_t const c = 1 + (size_t)vf_below(r, 3), n = (size_t)vf_below(r, 24 / c + 1);
+        int const same = vf_chance(r, 1, 2);
+        a_real const scale = mt_draw_mag(r);
+        for (size_t i = 0; i < 24; ++i) { v[i] = same ? scale * (a_real)vf_uniform(r, -1, 1) : mt_draw_mag(r); }
+        if (vf_chance(r, 1, 6)) { for (size_t i = 0; i < 24; ++i) { v[i] = 0; } }
+        h = mt_fold_real(h, a_real_norm2(v[0], v[1]));
+        h = mt_fold_real(h, a_real_norm3(v[0], v[1], v[2]));
+        h = mt_fold_real(h, a_real_norm(n, v));
+        h = mt_fold_real(h, a_real_norm_(n, v, c));
+        a_real_cart2pol(v[0], v[1], &o[0], &o[1]); h = mt_fold_reals(h, o, 2);
+        a_real_pol2cart(o[0], o[1], &o[1], &o[2]); h = mt_fold_reals(h, o + 1, 2);
+        a_real_pol2cart(v[2] < 0 ? -v[2] : v[2], (a_real)vf_uniform(r, -7, 7), &o[0], &o[1]); h = mt_fold_reals(h, o, 2);
+        a_real_cart2sph(v[3], v[4], v[5], &o[0], &o[1], &o[2]); h = mt_fold_reals(h, o, 3);
+        a_real_sph2cart(o[0], o[1], o[2], &o[0], &o[1], &o[2]); h = mt_fold_reals(h, o, 3);
+        a_real_sph2cart((a_real)vf_logu(r, -3, 3), (a_real)vf_uniform(r, -7, 7), (a_real)vf_uniform(r, -4, 4), &o[0], &o[1], &o[2]); h = mt_fold_reals(h, o, 3);
+        h = mt_fold_real(h, a_real_rad2deg(v[6]));
+        h = mt_fold_real(h, a_real_deg2rad(v[7]));
+        {
+            a_f32 const f = a_f32_rsqrt((a_f32)v[8]);
+            a_f64 const d = a_f64_rsqrt((a_f64)v[9]);
+            h = mt_fold_bytes(h, &f, sizeof f); h = mt_fold_bytes(h, &d, sizeof d);
+            h = mt_fold_real(h, (a_real)a_f32_rsqrt((a_f32)(v[10] < 0 ? -v[10] : v[10])));
+            h = mt_fold_real(h, (a_real)a_f64_rsqrt((a_f64)(v[11] < 0 ? -v[11] : v[11])));
+        }
+    }
+    return h;
+}
+static uint64_t it_reduce(vf_rng *r)
+{
+    uint64_t h = 0x2C11;
+    for (int rep = 0; rep < 16; ++rep)
+    {
+        a_real X[36], Y[36];
+        size_t const xc = 1 + (size_t)vf_below(r, 3), yc = 1 + (size_t)vf_below(r, 3), n = (size_t)vf_below(r, 13);
+        int const ints = vf_chance(r, 1, 2);
+        for (size_t i = 0; i < 36; ++i) { X[i] = ints ? (a_real)vf_range(r, -999, 999) : mt_draw_mag(r); Y[i] = ints ? (a_real)vf_range(r, -999, 999) : (a_real)vf_uniform(r, -2, 2); }
+        h = mt_fold_u64(h, (n << 8) | (xc << 4) | yc);
+        h = mt_fold_real(h, a_real_sum(n, X)); h = mt_fold_real(h, a_real_sum_(n, X, xc));
+        h = mt_fold_real(h, a_real_sum1(n, X)); h = mt_fold_real(h, a_real_sum1_(n, X, xc));
+        h = mt_fold_real(h, a_real_sum2(n, Y)); h = mt_fold_real(h, a_real_sum2_(n, Y, yc));
+        h = mt_fold_real(h, a_real_mean(n, X)); h = mt_fold_real(h, a_real_mean_(n, X, xc));
+        h = mt_fold_real(h, a_real_dot(n, X, Y)); h = mt_fold_real(h, a_real_dot_(n, X, xc, Y, yc));
+    }
+    return h;
+}
+static uint64_t it_move(vf_rng *r)
+{
+    uint64_t h = 0x3C11;
+    for (int rep = 0; rep < 12; ++rep)
+    {
+        a_real A[36], B[36], S[36];
+        size_t const ac = 1 + (size_t)vf_below(r, 3), bc = 1 + (size_t)vf_below(r, 3), n = (size_t)vf_below(r, 13), k = (size_t)vf_below(r, 20);
+        for (size_t i = 0; i < 36; ++i) { A[i] = (a_real)vf_range(r, -99999, 99999) / 8; B[i] = (a_real)(1000 + i); S[i] = -1; }
+        h = mt_fold_u64(h, (n << 16) | (k << 8) | (ac << 4) | bc);
+#define MT_AB h = mt_fold_reals(h, A, 36); h = mt_fold_reals(h, B, 36);
+        a_real_copy(n, B + 1, A + 2); MT_AB
+        a_real_copy_(n, B, bc, A, ac); MT_AB
+        a_real_swap(n, A + 3, B); MT_AB
+        a_real_swap_(n, A, ac, B, bc); MT_AB
+        a_real_fill(n, A + 5, (a_real)vf_range(r, -9, 9)); a_real_zero(n / 2, B + 7); MT_AB
+        a_real_push_fore(A, n, (a_real)7.5); a_real_push_back(B, n, (a_real)-7.5); MT_AB
+        a_real_push_fore(A + 1, n ? 1 : 0, (a_real)1.25); a_real_push_back(B + 1, n ? 1 : 0, (a_real)-1.25); MT_AB
+        a_real_push_fore_(A, n, B + 20, k % 13); a_real_push_back_(B, n, A + 20, k % 13); MT_AB
+        a_real_roll_fore(A, n); a_real_roll_back(B, n); MT_AB
+        a_real_roll_fore_(A, n, S, k); h = mt_fold_reals(h, S, n ? k % n : 0);
+        a_real_roll_back_(B, n, S, k + 1); h = mt_fold_reals(h, S, n ? (k + 1) % n : 0); MT_AB
+#undef MT_AB
+    }
+    return h;
+}
+/* from here on the same names are the library's exported functions, whatever the configuration says */
+#undef a_real_asinh
+#undef a_real_acosh
+#undef a_real_atanh
+#undef a_real_expm1
+#undef a_real_log1p
+#undef a_real_atan2
+#undef a_real_hypot
+#define a_real_hypot a_real_norm2
+static uint64_t it_special_exported(vf_rng *r) { MT_SPECIAL_BODY(0x4C11) }
+static mt_item const ITEMS[] = {{"asinh-acosh-atanh-expm1-log1p-atan2-hypot-as-the-header-binds-them", it_special_header},
+                                {"asinh-acosh-atanh-expm1-log1p-atan2-norm2-exported", it_special_exported},
+                                {"norms-coordinates-rsqrt", it_norms}, {"sum-mean-dot", it_reduce}, {"sum-mean-dot-2", it_reduce},
+                                {"copy-swap-fill-push-roll", it_move}, {"copy-swap-fill-push-roll-2", it_move}};
+#endif /* C11 */
+
+/* ============================================================================================ C12 C13: PID, fuzzy */
+#if VF_MT == 12 || VF_MT == 13
+#if VF_MT == 13
+/* the inline operators of a/fuzzy.h have exported twins compiled from the same text (what the language bindings link): the header
+ * is read with the inline bodies renamed to mt_inl_fuzzy_*, then the plain names are declared as the exported functions */
+#define a_fuzzy_not mt_inl_fuzzy_not
+#define a_fuzzy_cap mt_inl_fuzzy_cap
+#define a_fuzzy_cap_algebra mt_inl_fuzzy_cap_algebra
+#define a_fuzzy_cap_bounded mt_inl_fuzzy_cap_bounded
+#define a_fuzzy_cup mt_inl_fuzzy_cup
+#define a_fuzzy_cup_algebra mt_inl_fuzzy_cup_algebra
+#define a_fuzzy_cup_bounded mt_inl_fuzzy_cup_bounded
+#include "a/fuzzy.h"
+#undef a_fuzzy_not
+#undef a_fuzzy_cap
+#undef a_fuzzy_cap_algebra
+#undef a_fuzzy_cap_bounded
+#undef a_fuzzy_cup
+#undef a_fuzzy_cup_algebra
+#undef a_fuzzy_cup_bounded
+A_EXTERN a_real a_fuzzy_not(a_real x);
+A_EXTERN a_real a_fuzzy_cap(a_real a, a_real b);
+A_EXTERN a_real a_fuzzy_cap_algebra(a_real a, a_real b);
+A_EXTERN a_real a_fuzzy_cap_bounded(a_real a, a_real b);
+A_EXTERN a_real a_fuzzy_cup(a_real a, a_real b);
+A_EXTERN a_real a_fuzzy_cup_algebra(a_real a, a_real b);
+A_EXTERN a_real a_fuzzy_cup_bounded(a_real a, a_real b);
+#endif
+#include "a/pid.h"
+#include "a/pid_fuzzy.h"
+#include "a/pid_neuro.h"
+#include "a/mf.h"
+#include "a/fuzzy.h"
+#define MT_NRULE 7
+#define MT_MFTAB (5 * MT_NRULE + 1)
+static uint64_t mt_fold_reals(uint64_t h, a_real const *p, size_t n)
+{
+    for (size_t i = 0; i < n; ++i) { h = mt_fold_real(h, p[i]); }
+    return h;
+}
+/* one membership function of the given kind around centre c with spacing w: kind + its parameters, returns the cells used */
+static unsigned mt_mf_entry(vf_rng *r, unsigned kind, a_real c, a_real w, a_real *t)
+{
+    a_real const j = w * (a_real)vf_uniform(r, -0.1, 0.1);
+    t[0] = (a_real)kind;
+    switch (kind)
+    {
+    case A_MF_GAUSS: t[1] = w / 2 + j; t[2] = c; return 3;
+    case A_MF_GAUSS2: t[1] = w / 2; t[2] = c - w / 4 + j; t[3] = w / 3; t[4] = c + w / 4; return 5;
+    case A_MF_GBELL: t[1] = w / 2 + j; t[2] = (a_real)vf_range(r, 1, 4); t[3] = c; return 4;
+    case A_MF_SIG: t[1] = (a_real)vf_sign(r) * 4 / w; t[2] = c + j; return 3;
+    case A_MF_DSIG: t[1] = 8 / w; t[2] = c - w / 2 + j; t[3] = 8 / w; t[4] = c + w / 2; return 5;
+    case A_MF_PSIG: t[1] = 8 / w; t[2] = c - w / 2 + j; t[3] = -8 / w; t[4] = c + w / 2; return 5;
+    case A_MF_TRAP: t[1] = c - w; t[2] = c - w / 4 + j; t[3] = c + w / 4 + j; t[4] = c + w; return 5;
+    case A_MF_TRI: t[1] = c - w; t[2] = c + j; t[3] = c + w; return 4;
+    case A_MF_LINS: t[1] = c - w; t[2] = c + j; return 3;
+    case A_MF_LINZ: t[1] = c + j; t[2] = c + w; return 3;
+    case A_MF_S: t[1] = c - w; t[2] = c + j; return 3;
+    case A_MF_Z: t[1] = c + j; t[2] = c + w; return 3;
+    default: t[0] = (a_real)A_MF_PI; t[1] = c - w; t[2] = c - w / 4 + j; t[3] = c + w / 4 + j; t[4] = c + w; return 5;
+    }
+}
+/* a private parameter table of n membership functions spread over [-x, x], closed by A_MF_NUL */
+static void mt_mf_table(vf_rng *r, unsigned n, a_real x, int mixed, a_real *t)
+{
+    a_real const w = 2 * x / (a_real)(n > 1 ? n - 1 : 1);
+    for (unsigned i = 0; i < n; ++i)
+    {
+        t += mt_mf_entry(r, mixed ? 1 + (unsigned)vf_below(r, 13) : (unsigned)A_MF_TRI, -x + w * (a_real)i, w, t);
+    }
+    *t = (a_real)A_MF_NUL;
+}
+static uint64_t mt_fold_pid(uint64_t h, a_pid const *p)
+{
+    h = mt_fold_real(h, p->kp); h = mt_fold_real(h, p->ki); h = mt_fold_real(h, p->kd);
+    h = mt_fold_real(h, p->summax); h = mt_fold_real(h, p->summin); h = mt_fold_real(h, p->sum);
+    h = mt_fold_real(h, p->outmax); h = mt_fold_real(h, p->outmin); h = mt_fold_real(h, p->out);
+    h = mt_fold_real(h, p->var); h = mt_fold_real(h, p->fdb); h = mt_fold_real(h, p->err);
+    return h;
+}
+static void mt_draw_pid(vf_rng *r, a_pid *p)
+{
+    int const dyadic = vf_chance(r, 1, 2);
+    p->kp = dyadic ? (a_real)vf_range(r, 0, 64) / 8 : (a_real)vf_uniform(r, 0, 20);
+    p->ki = dyadic ? (a_real)vf_range(r, 0, 16) / 16 : (a_real)vf_uniform(r, 0, 1);
+    p->kd = dyadic ? (a_real)vf_range(r, 0, 16) / 4 : (a_real)vf_uniform(r, 0, 2);
+    p->summax = (a_real)vf_range(r, 1, 40); p->summin = -(a_real)vf_range(r, 1, 40);
+    p->outmax = (a_real)vf_range(r, 1, 100); p->outmin = -(a_real)vf_range(r, 1, 100);
+}
+/* set point and measurement of a step: a slowly moving target, a first-order plant driven by the last output */
+#define MT_PLANT_VARS a_real set = (a_real)vf_range(r, -20, 20), y = 0, u = 0
+#define MT_PLANT_STEP                                                                   \
+    if (vf_chance(r, 1, 10)) { set = (a_real)vf_range(r, -20, 20) / (vf_chance(r, 1, 2) ? 1 : 4); } \
+    y += (u - y) / 8 + (vf_chance(r, 1, 6) ? (a_real)vf_range(r, -8, 8) / 16 : 0);
+#endif
+#if VF_MT == 12
+static uint64_t it_pid(vf_rng *r)
+{
+    a_pid p;
+    uint64_t h = 0xC12;
+    MT_PLANT_VARS;
+    mt_draw_pid(r, &p);
+    a_pid_init(&p);
+    h = mt_fold_pid(h, &p);
+    for (int k = 0; k < 80; ++k)
+    {
+        unsigned const what = (unsigned)vf_below(r, 24);
+        MT_PLANT_STEP
+        if (what < 9) { u = a_pid_pos(&p, set, y); }
+        else if (what < 18) { u = a_pid_inc(&p, set, y); }
+        else if (what < 21) { u = a_pid_run(&p, set, y); }
+        else if (what < 22) { a_pid_zero(&p); u = 0; }
+        else { a_pid_set_kpid(&p, (a_real)vf_range(r, 0, 64) / 8, (a_real)vf_range(r, 0, 16) / 16, (a_real)vf_range(r, 0, 16) / 4); }
+        h = mt_fold_real(h, u);
+        h = mt_fold_pid(h, &p);
+    }
+    return h;
+}
+static uint64_t it_pid_neuro(vf_rng *r)
+{
+    a_pid_neuro p;
+    uint64_t h = 0x1C12;
+    MT_PLANT_VARS;
+    mt_draw_pid(r, &p.pid);
+    a_pid_neuro_set_kpid(&p, (a_real)vf_range(r, 1, 40) / 4, (a_real)vf_range(r, 0, 64) / 8, (a_real)vf_range(r, 0, 16) / 16, (a_real)vf_range(r, 0, 16) / 4);
+    a_pid_neuro_set_wpid(&p, (a_real)vf_uniform(r, 0.05, 1), (a_real)vf_uniform(r, 0.05, 1), (a_real)vf_uniform(r, 0.05, 1));
+    a_pid_neuro_init(&p);
+    for (int k = 0; k < 80; ++k)
+    {
+        unsigned const what = (unsigned)vf_below(r, 24);
+        MT_PLANT_STEP
+        if (what < 17) { u = a_pid_neuro_inc(&p, set, y); }
+        else if (what < 21) { u = a_pid_neuro_run(&p, set, y); }
+        else if (what < 22) { a_pid_neuro_zero(&p); u = 0; }
+        else if (what < 23) { a_pid_neuro_set_wpid(&p, (a_real)vf_uniform(r, 0.05, 1), (a_real)vf_uniform(r, 0.05, 1), (a_real)vf_uniform(r, 0.05, 1)); }
+        else { a_pid_neuro_set_kpid(&p, (a_real)vf_range(r, 1, 40) / 4, (a_real)vf_range(r, 0, 64) / 8, (a_real)vf_range(r, 0, 16) / 16, (a_real)vf_range(r, 0, 16) / 4); }
+        h = mt_fold_real(h, u);
+        h = mt_fold_pid(h, &p.pid);
+        h = mt_fold_real(h, p.k); h = mt_fold_real(h, p.wp); h = mt_fold_real(h, p.wi); h = mt_fold_real(h, p.wd); h = mt_fold_real(h, p.ec);
+    }
+    return h;
+}
+#endif
+#if VF_MT == 12 || VF_MT == 13
+/* a fuzzy controller whose every table and scratch block is private to the call */
+static uint64_t it_pid_fuzzy(vf_rng *r)
+{
+    a_pid_fuzzy p;
+    unsigned const n = 2 + (unsigned)vf_below(r, MT_NRULE - 1);
+    a_real me[MT_MFTAB], mec[MT_MFTAB], mkp[MT_NRULE * MT_NRULE], mki[MT_NRULE * MT_NRULE], mkd[MT_NRULE * MT_NRULE];
+    size_t const bytes = A_PID_FUZZY_BFUZZ(n);
+    void *const block = malloc(bytes);
+    uint64_t h = 0x2C12;
+    MT_PLANT_VARS;
+    /* now and then the table ends (A_MF_NUL) one function before the rule count */
+    mt_mf_table(r, n > 2 && vf_chance(r, 1, 6) ? n - 1 : n, (a_real)vf_range(r, 4, 30), vf_chance(r, 1, 2), me);
+    mt_mf_table(r, n, (a_real)vf_range(r, 2, 12), vf_chance(r, 1, 2), mec);
+    for (unsigned i = 0; i < n * n; ++i)
+    {
+        mkp[i] = (a_real)vf_range(r, -24, 24) / 8; mki[i] = (a_real)vf_range(r, -8, 8) / 64; mkd[i] = (a_real)vf_range(r, -8, 8) / 16;
+    }
+    memset(block, 0, bytes);
+    mt_draw_pid(r, &p.pid);
+    a_pid_fuzzy_set_opr(&p, (unsigned)vf_below(r, 8));
+    a_pid_fuzzy_set_rule(&p, n, me, mec, mkp, vf_chance(r, 1, 8) ? NULL : mki, vf_chance(r, 1, 8) ? NULL : mkd);
+    a_pid_fuzzy_set_bfuzz(&p, block, n);
+    a_pid_fuzzy_set_kpid(&p, (a_real)vf_range(r, 8, 64) / 8, (a_real)vf_range(r, 0, 16) / 16, (a_real)vf_range(r, 0, 16) / 4);
+    a_pid_fuzzy_init(&p);
+    h = mt_fold_u64(h, a_pid_fuzzy_bfuzz(&p) == block);
+    h = mt_fold_u64(h, ((uint64_t)p.nrule << 32) | p.nfuzz);
+    for (int k = 0; k < 60; ++k)
+    {
+        unsigned const what = (unsigned)vf_below(r, 24);
+        MT_PLANT_STEP
+        if (what < 9) { u = a_pid_fuzzy_pos(&p, set, y); }
+        else if (what < 18) { u = a_pid_fuzzy_inc(&p, set, y); }
+        else if (what < 20) { u = a_pid_fuzzy_run(&p, set, y); }
+        else if (what < 21) { a_pid_fuzzy_zero(&p); u = 0; }
+        else if (what < 22) { a_pid_fuzzy_set_kpid(&p, (a_real)vf_range(r, 8, 64) / 8, (a_real)vf_range(r, 0, 16) / 16, (a_real)vf_range(r, 0, 16) / 4); }
+        else
+        {
+            unsigned const opr = (unsigned)vf_below(r, 8);
+            a_pid_fuzzy_set_opr(&p, opr);
+            h = mt_fold_real(h, a_pid_fuzzy_opr(opr)((a_real)vf_unit(r), (a_real)vf_unit(r)));
+        }
+        h = mt_fold_real(h, u);
+        h = mt_fold_pid(h, &p.pid);
+        h = mt_fold_real(h, p.kp); h = mt_fold_real(h, p.ki); h = mt_fold_real(h, p.kd);
+        /* the scratch block (cleared before use): active sets, memberships, joint membership matrix */
+        if (k % 8 == 0) { h = mt_fold_bytes(h, block, bytes); }
+    }
+    h = mt_fold_bytes(h, block, bytes);
+    free(block);
+    return h;
+}
+#endif
+#if VF_MT == 12
+static mt_item const ITEMS[] = {{"pid", it_pid}, {"pid-2", it_pid}, {"pid-neuro", it_pid_neuro}, {"pid-neuro-2", it_pid_neuro},
+                                {"pid-fuzzy", it_pid_fuzzy}, {"pid-fuzzy-2", it_pid_fuzzy}, {"pid-fuzzy-3", it_pid_fuzzy}};
+#endif /* C12 */
+#if VF_MT == 13
+static uint64_t it_mf(vf_rng *r)
+{
+    uint64_t h = 0xC13;
+    for (int rep = 0; rep < 30; ++rep)
+    {
+        a_real t[6];
+        a_real const c = (a_real)vf_uniform(r, -5, 5), w = (a_real)vf_logu(r, -2, 1);
+        unsigned const kind = 1 + (unsigned)vf_below(r, 13);
+        (void)mt_mf_entry(r, kind, c, w, t);
+        for (int k = 0; k < 6; ++k)
+        {
+            a_real const x = vf_chance(r, 1, 4) ? t[1 + vf_below(r, 2)] : c + 3 * w * (a_real)vf_uniform(r, -1, 1);
+            a_real v;
+            switch (kind)
+            {
+            case A_MF_GAUSS: v = a_mf_gauss(x, t[1], t[2]); break;
+            case A_MF_GAUSS2: v = a_mf_gauss2(x, t[1], t[2], t[3], t[4]); break;
+            case A_MF_GBELL: v = a_mf_gbell(x, t[1], t[2], t[3]); break;
+            case A_MF_SIG: v = a_mf_sig(x, t[1], t[2]); break;
+            case A_MF_DSIG: v = a_mf_dsig(x, t[1], t[2], t[3], t[4]); break;
+            case A_MF_PSIG: v = a_mf_psig(x, t[1], t[2], t[3], t[4]); break;
+            case A_MF_TRAP: v = a_mf_trap(x, t[1], t[2], t[3], t[4]); break;
+            case A_MF_TRI: v = a_mf_tri(x, t[1], t[2], t[3]); break;
+            case A_MF_LINS: v = a_mf_lins(x, t[1], t[2]); break;
+            case A_MF_LINZ: v = a_mf_linz(x, t[1], t[2]); break;
+            case A_MF_S: v = a_mf_s(x, t[1], t[2]); break;
+            case A_MF_Z: v = a_mf_z(x, t[1], t[2]); break;
+            default: v = a_mf_pi(x, t[1], t[2], t[3], t[4]); break;
+            }
+            h = mt_fold_real(h, v);
+            h = mt_fold_real(h, a_mf(kind, x, t + 1));
+        }
+        h = mt_fold_real(h, a_mf((unsigned)A_MF_NUL, c, t + 1));
+        h = mt_fold_real(h, a_mf(14 + (unsigned)vf_below(r, 5), c, t + 1));
+    }
+    return h;
+}
+static uint64_t it_fuzzy_ops(vf_rng *r)
+{
+    uint64_t h = 0x1C13;
+    for (int rep = 0; rep < 60; ++rep)
+    {
+        a_real const a = vf_chance(r, 1, 8) ? (a_real)vf_below(r, 2) : (a_real)vf_unit(r), b = vf_chance(r, 1, 8) ? (a_real)vf_below(r, 2) : (a_real)vf_unit(r);
+        a_real const g = (a_real)vf_unit(r);
+#define MT_OP1(F) h = mt_fold_real(h, a_fuzzy_##F(a)); h = mt_fold_real(h, mt_inl_fuzzy_##F(a));
+#define MT_OP2(F) h = mt_fold_real(h, a_fuzzy_##F(a, b)); h = mt_fold_real(h, mt_inl_fuzzy_##F(a, b));
+        MT_OP1(not) MT_OP2(cap) MT_OP2(cap_algebra) MT_OP2(cap_bounded) MT_OP2(cup) MT_OP2(cup_algebra) MT_OP2(cup_bounded)
+#undef MT_OP1
+#undef MT_OP2
+        h = mt_fold_real(h, a_fuzzy_equ(a, b));
+        h = mt_fold_real(h, a_fuzzy_equ_(g, a, b));
+        for (unsigned opr = 0; opr < 8; ++opr) { h = mt_fold_real(h, a_pid_fuzzy_opr(opr)(a, b)); }
+    }
+    return h;
+}
+static mt_item const ITEMS[] = {{"membership-functions", it_mf}, {"membership-functions-2", it_mf}, {"fuzzy-operators", it_fuzzy_ops},
+                                {"gain-scheduling", it_pid_fuzzy}, {"gain-scheduling-2", it_pid_fuzzy}, {"gain-scheduling-3", it_pid_fuzzy}};
+#endif /* C13 */
+
+/* ============================================================================================ C14: velocity-profile trajectories */
+#if VF_MT == 14
+#include "a/trajtrap.h"
+#include "a/trajbell.h"
+static a_real mt_draw_kin(vf_rng *r, int lim)
+{
+    return vf_chance(r, 1, 2) ? (a_real)vf_range(r, -lim, lim) : (a_real)vf_uniform(r, -lim, lim);
+}
+static uint64_t it_trap(vf_rng *r)
+{
+    uint64_t h = 0xC14;
+    for (int rep = 0; rep < 10; ++rep)
+    {
+        a_trajtrap t;
+        a_real const vm = (a_real)vf_logu(r, -1, 2), ac = (a_real)vf_logu(r, -1, 2), de = -(a_real)vf_logu(r, -1, 2);
+        a_real const p0 = mt_draw_kin(r, 50), p1 = vf_chance(r, 1, 12) ? p0 : mt_draw_kin(r, 50);
+        a_real const v0 = vf_chance(r, 1, 3) ? 0 : mt_draw_kin(r, 3), v1 = vf_chance(r, 1, 3) ? 0 : mt_draw_kin(r, 3);
+        a_real T;
+        memset(&t, 0, sizeof t);
+        T = a_trajtrap_gen(&t, vf_chance(r, 1, 8) ? -vm : vm, vf_chance(r, 1, 8) ? -ac : ac, vf_chance(r, 1, 8) ? -de : de, p0, p1, v0, v1);
+        h = mt_fold_real(h, T);
+        h = mt_fold_real(h, t.t); h = mt_fold_real(h, t.p0); h = mt_fold_real(h, t.p1); h = mt_fold_real(h, t.v0); h = mt_fold_real(h, t.v1);
+        h = mt_fold_real(h, t.vc); h = mt_fold_real(h, t.ta); h = mt_fold_real(h, t.td); h = mt_fold_real(h, t.pa); h = mt_fold_real(h, t.pd);
+        h = mt_fold_real(h, t.ac); h = mt_fold_real(h, t.de);
+        for (int k = 0; k <= 12; ++k)
+        {
+            /* the grid, the phase boundaries, a little outside */
+            a_real const x = k == 10 ? t.ta : k == 11 ? t.td : k == 12 ? t.t * (a_real)vf_uniform(r, -0.2, 1.2) : t.t * (a_real)k / 9;
+            h = mt_fold_real(h, a_trajtrap_pos(&t, x));
+            h = mt_fold_real(h, a_trajtrap_vel(&t, x));
+            h = mt_fold_real(h, a_trajtrap_acc(&t, x));
+        }
+    }
+    return h;
+}
+static uint64_t it_bell(vf_rng *r)
+{
+    uint64_t h = 0x1C14;
+    for (int rep = 0; rep < 10; ++rep)
+    {
+        a_trajbell t;
+        a_real const jm = (a_real)vf_logu(r, -1, 2), am = (a_real)vf_logu(r, -1, 2), vm = (a_real)vf_logu(r, -1, 2);
+        a_real const p0 = mt_draw_kin(r, 50), p1 = vf_chance(r, 1, 12) ? p0 : mt_draw_kin(r, 50);
+        a_real const v0 = vf_chance(r, 1, 3) ? 0 : mt_draw_kin(r, 3), v1 = vf_chance(r, 1, 3) ? 0 : mt_draw_kin(r, 3);
+        a_real T;
+        memset(&t, 0, sizeof t);
+        T = a_trajbell_gen(&t, vf_chance(r, 1, 8) ? -jm : jm, vf_chance(r, 1, 8) ? -am : am, vf_chance(r, 1, 8) ? -vm : vm, p0, p1, v0, v1);
+        h = mt_fold_real(h, T);
+        h = mt_fold_real(h, t.t); h = mt_fold_real(h, t.tv); h = mt_fold_real(h, t.ta); h = mt_fold_real(h, t.td); h = mt_fold_real(h, t.taj);
+        h = mt_fold_real(h, t.tdj); h = mt_fold_real(h, t.p0); h = mt_fold_real(h, t.p1); h = mt_fold_real(h, t.v0); h = mt_fold_real(h, t.v1);
+        h = mt_fold_real(h, t.vm); h = mt_fold_real(h, t.jm); h = mt_fold_real(h, t.am); h = mt_fold_real(h, t.dm);
+        for (int k = 0; k <= 16; ++k)
+        {
+            a_real const x = k == 10 ? t.taj : k == 11 ? t.ta - t.taj : k == 12 ? t.ta : k == 13 ? t.ta + t.tv : k == 14 ? t.t - t.td + t.tdj
+                           : k == 15 ? t.t - t.tdj : k == 16 ? t.t * (a_real)vf_uniform(r, -0.2, 1.2) : t.t * (a_real)k / 9;
+            h = mt_fold_real(h, a_trajbell_pos(&t, x));
+            h = mt_fold_real(h, a_trajbell_vel(&t, x));
+            h = mt_fold_real(h, a_trajbell_acc(&t, x));
+            h = mt_fold_real(h, a_trajbell_jer(&t, x));
+        }
+    }
+    return h;
+}
+static mt_item const ITEMS[] = {{"trapezoid", it_trap}, {"trapezoid-2", it_trap}, {"trapezoid-3", it_trap}, {"bell", it_bell}, {"bell-2", it_bell}, {"bell-3", it_bell}};
+#endif /* C14 */
+
+/* ============================================================================================ C15: polynomial trajectories */
+#if VF_MT == 15
+/* a_poly_eval / a_poly_evar / a_poly_swap: inline in the header and exported twins from the same text (see C10) */
+#define a_poly_eval mt_inl_poly_eval
+#define a_poly_evar mt_inl_poly_evar
+#define a_poly_swap mt_inl_poly_swap
+#include "a/poly.h"
+#undef a_poly_eval
+#undef a_poly_evar
+#undef a_poly_swap
+A_EXTERN a_real a_poly_eval(a_real const *a, a_size n, a_real x);
+A_EXTERN a_real a_poly_evar(a_real const *a, a_size n, a_real x);
+A_EXTERN void a_poly_swap(a_real *a, a_size n);
+#include "a/trajpoly3.h"
+#include "a/trajpoly5.h"
+#include "a/trajpoly7.h"
+static uint64_t mt_fold_reals(uint64_t h, a_real const *p, size_t n)
+{
+    for (size_t i = 0; i < n; ++i) { h = mt_fold_real(h, p[i]); }
+    return h;
+}
+static a_real mt_draw_kin(vf_rng *r, int lim)
+{
+    return vf_chance(r, 1, 2) ? (a_real)vf_range(r, -lim, lim) : (a_real)vf_uniform(r, -lim, lim);
+}
+#define MT_POLY_SAMPLES(P, JER)                                                         \
+    for (int k = 0; k <= 10; ++k)                                                       \
+    {                                                                                   \
+        a_real const x = k == 10 ? ts * (a_real)vf_uniform(r, -0.5, 1.5) : ts * (a_real)k / 9; \
+        h = mt_fold_real(h, a_##P##_pos(&t, x));                                        \
+        h = mt_fold_real(h, a_##P##_vel(&t, x));                                        \
+        h = mt_fold_real(h, a_##P##_acc(&t, x));                                        \
+        JER                                                                             \
+    }
+static uint64_t it_poly3(vf_rng *r)
+{
+    uint64_t h = 0xC15;
+    for (int rep = 0; rep < 12; ++rep)
+    {
+        a_trajpoly3 t;
+        a_real c[4];
+        a_real const ts = vf_chance(r, 1, 2) ? (a_real)vf_range(r, 1, 16) / 4 : (a_real)vf_logu(r, -2, 2);
+        a_trajpoly3_gen(&t, ts, mt_draw_kin(r, 50), mt_draw_kin(r, 50), mt_draw_kin(r, 5), mt_draw_kin(r, 5));
+        h = mt_fold_reals(h, t.c, 4);
+        a_trajpoly3_c0(&t, c); h = mt_fold_reals(h, c, 4);
+        a_trajpoly3_c1(&t, c); h = mt_fold_reals(h, c, 3);
+        a_trajpoly3_c2(&t, c); h = mt_fold_reals(h, c, 2);
+        MT_POLY_SAMPLES(trajpoly3, )
+    }
+    return h;
+}
+static uint64_t it_poly5(vf_rng *r)
+{
+    uint64_t h = 0x1C15;
+    for (int rep = 0; rep < 12; ++rep)
+    {
+        a_trajpoly5 t;
+        a_real c[6];
+        a_real const ts = vf_chance(r, 1, 2) ? (a_real)vf_range(r, 1, 16) / 4 : (a_real)vf_logu(r, -2, 2);
+        a_trajpoly5_gen(&t, ts, mt_draw_kin(r, 50), mt_draw_kin(r, 50), mt_draw_kin(r, 5), mt_draw_kin(r, 5), mt_draw_kin(r, 3), mt_draw_kin(r, 3));
+        h = mt_fold_reals(h, t.c, 6);
+        a_trajpoly5_c0(&t, c); h = mt_fold_reals(h, c, 6);
+        a_trajpoly5_c1(&t, c); h = mt_fold_reals(h, c, 5);
+        a_trajpoly5_c2(&t, c); h = mt_fold_reals(h, c, 4);
+        MT_POLY_SAMPLES(trajpoly5, )
+    }
+    return h;
+}
+static uint64_t it_poly7(vf_rng *r)
+{
+    uint64_t h = 0x2C15;
+    for (int rep = 0; rep < 12; ++rep)
+    {
+        a_trajpoly7 t;
+        a_real c[8];
+        a_real const ts = vf_chance(r, 1, 2) ? (a_real)vf_range(r, 1, 16) / 4 : (a_real)vf_logu(r, -2, 2);
+        a_trajpoly7_gen(&t, ts, mt_draw_kin(r, 50), mt_draw_kin(r, 50), mt_draw_kin(r, 5), mt_draw_kin(r, 5), mt_draw_kin(r, 3), mt_draw_kin(r, 3),
+                        mt_draw_kin(r, 2), mt_draw_kin(r, 2));
+        h = mt_fold_reals(h, t.c, 8);
+        a_trajpoly7_c0(&t, c); h = mt_fold_reals(h, c, 8);
+        a_trajpoly7_c1(&t, c); h = mt_fold_reals(h, c, 7);
+        a_trajpoly7_c2(&t, c); h = mt_fold_reals(h, c, 6);
+        a_trajpoly7_c3(&t, c); h = mt_fold_reals(h, c, 5);
+        MT_POLY_SAMPLES(trajpoly7, h = mt_fold_real(h, a_trajpoly7_jer(&t, x));)
+    }
+    return h;
+}
+static uint64_t it_poly(vf_rng *r)
+{
+    uint64_t h = 0x3C15;
+    for (int rep = 0; rep < 16; ++rep)
+    {
+        a_real a[12], x[8], y[8], A[5 * 5], b[5];
+        size_t const n = (size_t)vf_below(r, 11);
+        a_uint const m = (a_uint)vf_below(r, 9), deg = (a_uint)vf_below(r, 6);
+        int const ints = vf_chance(r, 1, 2);
+        for (size_t i = 0; i < 12; ++i) { a[i] = ints ? (a_real)vf_range(r, -9, 9) : (a_real)vf_uniform(r, -3, 3); }
+        for (size_t i = 0; i < 8; ++i) { x[i] = ints ? (a_real)vf_range(r, -4, 4) : (a_real)vf_uniform(r, -2, 2); y[i] = (a_real)vf_range(r, -20, 20); }
+        h = mt_fold_u64(h, (n << 16) | (m << 8) | deg);
+        for (int k = 0; k < 3; ++k)
+        {
+            a_real const at = k ? (a_real)vf_uniform(r, -2, 2) : (a_real)vf_range(r, -3, 3);
+            h = mt_fold_real(h, a_poly_eval(a, n, at)); h = mt_fold_real(h, mt_inl_poly_eval(a, n, at));
+            h = mt_fold_real(h, a_poly_evar(a, n, at)); h = mt_fold_real(h, mt_inl_poly_evar(a, n, at));
+            if (n) { h = mt_fold_real(h, a_poly_eval_(a + 1, a + 1 + n, at)); h = mt_fold_real(h, a_poly_evar_(a + 1, a + 1 + n, at)); }
+        }
+        a_poly_swap(a, n); h = mt_fold_reals(h, a, 12);
+        mt_inl_poly_swap(a + 1, n); h = mt_fold_reals(h, a, 12);
+        if (n) { a_poly_swap_(a, a + n); h = mt_fold_reals(h, a, 12); }
+        /* normal equations of a least-squares fit */
+        for (size_t i = 0; i < 25; ++i) { A[i] = -1; }
+        for (size_t i = 0; i < 5; ++i) { b[i] = -1; }
+        a_poly_xTx(m, x, deg, A); h = mt_fold_reals(h, A, 25);
+        a_poly_xTy(m, x, y, deg, b); h = mt_fold_reals(h, b, 5);
+    }
+    return h;
+}
+static mt_item const ITEMS[] = {{"cubic", it_poly3}, {"cubic-2", it_poly3}, {"quintic", it_poly5}, {"quintic-2", it_poly5}, {"septic", it_poly7}, {"septic-2", it_poly7},
+                                {"poly-eval-evar-swap-xTx-xTy", it_poly}, {"poly-eval-evar-swap-xTx-xTy-2", it_poly}};
+#endif /* C15 */
+
+/* ============================================================================================ C16: transfer function, RC filters */
+#if VF_MT == 16
+#include "a/tf.h"
+#include "a/lpf.h"
+#include "a/hpf.h"
+#define MT_TFN 8
+static uint64_t mt_fold_reals(uint64_t h, a_real const *p, size_t n)
+{
+    for (size_t i = 0; i < n; ++i) { h = mt_fold_real(h, p[i]); }
+    return h;
+}
+static uint64_t it_tf(vf_rng *r)
+{
+    a_tf tf;
+    a_real num[MT_TFN], den[MT_TFN], num2[MT_TFN], den2[MT_TFN], in[MT_TFN], out[MT_TFN], in2[MT_TFN], out2[MT_TFN];
+    unsigned nn = 1 + (unsigned)vf_below(r, MT_TFN), nd = (unsigned)vf_below(r, MT_TFN + 1);
+    int const ints = vf_chance(r, 1, 2);
+    uint64_t h = 0xC16;
+    for (unsigned i = 0; i < MT_TFN; ++i)
+    {
+        /* dyadic, contracting denominators: exact arithmetic for integer inputs */
+        num[i] = ints ? (a_real)vf_range(r, -8, 8) / 4 : (a_real)vf_uniform(r, -2, 2);
+        den[i] = ints ? (a_real)vf_range(r, -4, 4) / 64 : (a_real)vf_uniform(r, -0.1, 0.1);
+        num2[i] = (a_real)vf_range(r, -8, 8) / 4; den2[i] = (a_real)vf_range(r, -4, 4) / 64;
+        in[i] = out[i] = in2[i] = out2[i] = (a_real)(100 + i);
+    }
+    a_tf_init(&tf, nn, num, in, nd, den, out);
+    h = mt_fold_u64(h, ((uint64_t)tf.num_n << 32) | tf.den_n);
+    h = mt_fold_reals(h, in, MT_TFN); h = mt_fold_reals(h, out, MT_TFN);
+    for (int k = 0; k < 80; ++k)
+    {
+        unsigned const what = (unsigned)vf_below(r, 40);
+        if (what < 36) { h = mt_fold_real(h, a_tf_iter(&tf, ints ? (a_real)vf_range(r, -50, 50) : (a_real)vf_uniform(r, -50, 50))); }
+        else if (what < 37) { a_tf_zero(&tf); }
+        else if (what < 38) { nn = 1 + (unsigned)vf_below(r, MT_TFN); a_tf_set_num(&tf, nn, vf_chance(r, 1, 2) ? num2 : num, vf_chance(r, 1, 2) ? in2 : in); }
+        else if (what < 39) { nd = (unsigned)vf_below(r, MT_TFN + 1); a_tf_set_den(&tf, nd, vf_chance(r, 1, 2) ? den2 : den, vf_chance(r, 1, 2) ? out2 : out); }
+        else { a_tf_init(&tf, nn, num, in, nd, den, out); }
+        h = mt_fold_u64(h, ((uint64_t)tf.num_n << 32) | tf.den_n);
+        h = mt_fold_reals(h, tf.input, tf.num_n); h = mt_fold_reals(h, tf.output, tf.den_n);
+        if (what >= 36) { h = mt_fold_reals(h, in, MT_TFN); h = mt_fold_reals(h, out, MT_TFN); h = mt_fold_reals(h, in2, MT_TFN); h = mt_fold_reals(h, out2, MT_TFN); }
+    }
+    return h;
+}
+static uint64_t it_rc(vf_rng *r)
+{
+    uint64_t h = 0x1C16;
+    for (int rep = 0; rep < 4; ++rep)
+    {
+        a_lpf lo = A_LPF_1(0.25);
+        a_hpf hi = A_HPF_1(0.75);
+        a_lpf lo2 = A_LPF_2(10, 0.01);
+        a_hpf hi2 = A_HPF_2(10, 0.01);
+        a_real const fc = (a_real)vf_logu(r, -1, 3), ts = (a_real)vf_logu(r, -4, -1);
+        int const ints = vf_chance(r, 1, 2);
+        h = mt_fold_real(h, lo.alpha); h = mt_fold_real(h, lo2.alpha); h = mt_fold_real(h, hi.alpha); h = mt_fold_real(h, hi2.alpha);
+        h = mt_fold_real(h, a_lpf_gen(fc, ts)); h = mt_fold_real(h, a_hpf_gen(fc, ts));
+        h = mt_fold_real(h, (a_real)A_LPF_GEN(10, 0.01)); h = mt_fold_real(h, (a_real)A_HPF_GEN(10, 0.01));
+        if (vf_chance(r, 1, 2)) { a_lpf_init(&lo, ints ? (a_real)vf_range(r, 0, 16) / 16 : a_lpf_gen(fc, ts)); a_hpf_init(&hi, ints ? (a_real)vf_range(r, 0, 16) / 16 : a_hpf_gen(fc, ts)); }
+        for (int k = 0; k < 40; ++k)
+        {
+            a_real const x = ints ? (a_real)vf_range(r, -64, 64) : (a_real)vf_uniform(r, -64, 64);
+            if (vf_chance(r, 1, 20)) { a_lpf_zero(&lo); a_hpf_zero(&hi); }
+            h = mt_fold_real(h, a_lpf_iter(&lo, x)); h = mt_fold_real(h, a_hpf_iter(&hi, x));
+            h = mt_fold_real(h, a_lpf_iter(&lo2, x)); h = mt_fold_real(h, a_hpf_iter(&hi2, x));
+            h = mt_fold_real(h, lo.alpha); h = mt_fold_real(h, lo.output);
+            h = mt_fold_real(h, hi.alpha); h = mt_fold_real(h, hi.output); h = mt_fold_real(h, hi.input);
+        }
+    }
+    return h;
+}
+static mt_item const ITEMS[] = {{"transfer-function", it_tf}, {"transfer-function-2", it_tf}, {"transfer-function-3", it_tf}, {"low-pass-high-pass", it_rc}, {"low-pass-high-pass-2", it_rc}};
+#endif /* C16 */
 
 static uint64_t vf_ncases(int tier) { return tier ? 24 : 3; }
 static void vf_case(uint64_t c, vf_rng *r)
